@@ -2,21 +2,25 @@
    re-lexing the formatter's output (definitions: Write/FormatBytes.v).
 
    Main results
-     main_pick_stable     in the main scanner a match that produced a clean token is won
-                          by the same rule with the same token end when the bytes after
-                          the token change, provided the new bytes do not continue it
+     main_pick_stable, string_pick_stable
+                          in the main / string scanner a match that produced a clean token
+                          is won by the same rule with the same token end when the bytes
+                          after the token change in a way that does not continue it
      run_trace/trace_run  the scanner loop as a list of steps, both directions
-     relex_exact_main     sources of main-scanner tokens: layout_okb (format ts) implies
-                          that the written output lexes back to format ts exactly
-     layout_of_format     sources of main-scanner tokens without hazard pattern: format's
-                          output satisfies layout_okb (pipeline_LI4, fine_flat: what format
-                          does pair by pair; pair_table: finite exploration of space_after
-                          over all pairs of types; main_shape: first bytes by type)
-     relex_exact_simple, relex_stable_simple, bytes_idempotent_simple
-                          the byte-level statements for that fragment, unconditionally
+     relex_exact_nohd     clean sources without heredocs: layout_okb (format ts) implies that
+                          the written output lexes back to format ts exactly
+     layout_of_format_nohd  ... and format's output satisfies layout_okb when the source has no
+                          hazard pattern (pipeline_LI4, fine_flat: what format does pair by
+                          pair; pair_table, tl_table: finite exploration of space_after over
+                          all pairs of types; main_shape: first bytes by type)
+     relex_exact_quoted, relex_stable_quoted, bytes_idempotent_quoted
+                          the byte-level statements for sources without heredocs (quoted
+                          templates with ${..} and %{..} sequences included)
+     relex_exact_simple, relex_stable_simple, bytes_idempotent_simple, relex_exact_main
+                          corollaries for sources of main-scanner tokens
      relex_stable_refuted*  the statement is false without the hazard conditions
                           (witnesses by vm_compute)
-   Not proved: sources with quoted or heredoc templates (FormatBytes.relex_exact_hazard_free_stmt). *)
+   Not proved: sources with heredocs (FormatBytes.relex_exact_hazard_free_stmt). *)
 From Coq Require Import String Ascii.
 From HclV Require Import Base.Prelude Gen.TokenTypes Lex.Scanner Lex.ScannerProofs Lex.HclLex
   Lex.HclLexProofs Write.Format Write.FormatProofs Write.FormatBytes.
@@ -93,6 +97,9 @@ Proof.
   apply andb_true_iff in H. destruct H as [H1 H2]. apply Z.eqb_eq in H1. subst c.
   f_equal. eapply IH; [exact H2|lia].
 Qed.
+
+Lemma is_prefix_hd p0 p c y : is_prefix (p0 :: p) (c :: y) = true -> c = p0.
+Proof. simpl. intro H. apply andb_true_iff in H. destruct H as [H _]. apply Z.eqb_eq in H. auto. Qed.
 
 Lemma is_prefix_self p t : is_prefix p (p ++ t) = true.
 Proof. induction p as [|a p IH]; simpl; [reflexivity|]. rewrite Z.eqb_refl, IH. reflexivity. Qed.
@@ -1223,7 +1230,7 @@ Proof.
     f_equal. apply rtyb_emit_items.
 Qed.
 
-(* ==== 4. the decidable layout condition is sufficient; main-scanner fragment ==== *)
+(* ==== 4. decidable tail conditions; writer tokens of a trace; writing = re-spacing ==== *)
 
 (* ---- decidable versions of the tail conditions ------------------------------------- *)
 
@@ -1281,23 +1288,9 @@ Proof.
   - intros ->. apply hd_okb_ok. exact H3.
 Qed.
 
-(* the layout of a writer-token list: nonnegative spacing, and after every token
-   the bytes that follow it do not continue it *)
-
 (* the fragment: tokens of the main scanner only *)
 
-(* ---- the main scanner stays in main mode ------------------------------------------- *)
-
-Definition main_inv (st : hstate) : Prop := l_cur st = MMain /\ l_ret st = [].
-
 Definition ty_of (p : step) : Z := match g_emit p with EOne ty => ty | _ => 0 end.
-
-Fixpoint main_trace (ps : list step) : Prop :=
-  match ps with
-  | [] => True
-  | p :: r => g_emit p = EOne (ty_of p) /\ simple_ty (ty_of p) = true /\ ty_of p <> TokenEOF /\
-              main_inv (g_nst p) /\ main_trace r
-  end.
 
 Lemma simple_ty_inv t : simple_ty t = true -> clean_ty t = true /\ t <> TokenOHeredoc /\ t <> TokenOQuote.
 Proof.
@@ -1306,55 +1299,8 @@ Proof.
   apply negb_true_iff in H2, H3. apply Z.eqb_neq in H2, H3. auto.
 Qed.
 
-Lemma main_step (st : hstate) r s lk n e st' :
-  main_inv st -> In r rules_main -> r_match r s = Some (lk, n) ->
-  r_act r st (firstn (Nat.max 1 n) s) = Some (e, st') -> e <> ENone ->
-  (forall ty, In ty (emit_types e) -> simple_ty ty = true) ->
-  (exists ty, e = EOne ty) /\ main_inv st'.
-Proof.
-  intros [Hc Hr] Hin Hm Ha He Hs.
-  unfold rules_main, rule_spaces in Hin; cbn [In] in Hin.
-  repeat (destruct Hin as [<-|Hin];
-    [ cbn [r_act R] in Ha;
-      first
-        [ unfold a_skip in Ha; inversion Ha; subst; contradiction
-        | unfold a_tok in Ha; inversion Ha; subst; split; [eexists; reflexivity|split; assumption]
-        | unfold a_self in Ha; destruct (firstn (Nat.max 1 n) s) as [|c0 [|c1 l]]; try discriminate;
-          inversion Ha; subst; split; [eexists; reflexivity|split; assumption]
-        | unfold a_open_brace in Ha; inversion Ha; subst; split; [eexists; reflexivity|split; assumption]
-        | unfold a_close, ret_matches in Ha; rewrite Hr in Ha; inversion Ha; subst;
-          split; [eexists; reflexivity|split; assumption]
-        | exfalso; unfold a_begin_string in Ha; inversion Ha; subst;
-          specialize (Hs TokenOQuote (or_introl eq_refl)); vm_compute in Hs; discriminate
-        | exfalso; apply a_begin_heredoc_emit in Ha; subst;
-          specialize (Hs TokenOHeredoc (or_introl eq_refl)); vm_compute in Hs; discriminate ]
-    |]).
-  destruct Hin.
-Qed.
-
 Lemma tokens_emit_types e o b : map k_ty (tokens_of (emit_items e o b)) = emit_types e.
 Proof. destruct e; reflexivity. Qed.
-
-Lemma simple_trace : forall ps st tg off,
-  trace_ok st ps tg -> main_inv st ->
-  forallb (fun k => simple_ty (k_ty k)) (ttoks off ps tg) = true -> main_trace ps.
-Proof.
-  induction ps as [|p r IH]; intros st tg off Ht Hi Hs; [exact I|].
-  cbn [trace_ok] in Ht. destruct Ht as (Hbl & Hgm & Hne & Hnb & (lk & Hp) & Hb & Ha & He & Htr).
-  cbn [ttoks] in Hs. rewrite forallb_app in Hs. apply andb_true_iff in Hs. destruct Hs as [Hs1 Hs2].
-  destruct Hi as [Hc Hr]. rewrite Hc in Hp. change (hcl_rules MMain) with rules_main in Hp.
-  pose proof Hp as Hp2. apply pick_spec in Hp2. destruct Hp2 as [Hx|(Hin & Hm & Hlk)]; [discriminate|].
-  assert (Hty : forall ty, In ty (emit_types (g_emit p)) -> simple_ty ty = true).
-  { intros ty Hty. rewrite <- (tokens_emit_types (g_emit p) (off + zlen (g_gap p)) (g_b p)) in Hty.
-    apply in_map_iff in Hty. destruct Hty as (k & <- & Hk).
-    rewrite forallb_forall in Hs1. apply (Hs1 k Hk). }
-  rewrite Hb in Ha.
-  destruct (main_step st _ _ _ _ _ _ (conj Hc Hr) Hin Hm Ha He Hty) as ((ty & Ee) & Hi').
-  cbn [main_trace]. unfold ty_of. rewrite Ee in *.
-  split; [reflexivity|]. split; [apply Hty; left; reflexivity|]. split.
-  { eapply (hcl_emitted_types MMain); [exact Hin|exact Hm|exact Ha|left; reflexivity]. }
-  split; [exact Hi'|]. eapply IH; eassumption.
-Qed.
 
 (* the writer tokens of a main-mode trace *)
 Definition wt_step (g : list Z -> Z) (p : step) : tok :=
@@ -1362,16 +1308,6 @@ Definition wt_step (g : list Z -> Z) (p : step) : tok :=
 Definition wt_eof (g : list Z -> Z) (tg : list Z) : tok := mkTok TokenEOF [] (g []) (zlen tg).
 Definition wt_steps (g : list Z -> Z) (ps : list step) (tg : list Z) : list tok :=
   map (wt_step g) ps ++ [wt_eof g tg].
-
-Lemma wt_ttoks g : forall ps tg off, main_trace ps ->
-  writer_tokens g off (ttoks off ps tg) = wt_steps g ps tg.
-Proof.
-  induction ps as [|p r IH]; intros tg off Hm.
-  - cbn. unfold wt_eof. f_equal. f_equal. lia.
-  - cbn [main_trace] in Hm. destruct Hm as (Ee & _ & _ & _ & Hm).
-    cbn [ttoks]. rewrite Ee. cbn [emit_items tokens_of app writer_tokens k_ty k_bytes k_s k_e].
-    rewrite IH by exact Hm. unfold wt_steps. cbn [map app]. f_equal. unfold wt_step. f_equal. lia.
-Qed.
 
 (* ---- what format does to the final EOF token --------------------------------------- *)
 
@@ -1429,56 +1365,10 @@ Proof.
     apply IH. exact Hf.
 Qed.
 
-Lemma main_trace_regap : forall ps gs, length gs = length ps -> main_trace ps -> main_trace (regap ps gs).
-Proof.
-  induction ps as [|p r IH]; intros gs Hl Hm; destruct gs as [|g gs']; simpl in Hl; try lia; [exact I|].
-  cbn [main_trace regap] in *. unfold ty_of in *. cbn [set_gap g_emit g_nst].
-  destruct Hm as (H1 & H2 & H3 & H4 & H5).
-  split; [exact H1|]. split; [exact H2|]. split; [exact H3|]. split; [exact H4|]. apply IH; [lia|exact H5].
-Qed.
-
 Lemma tbytes_nonempty p r tg : g_b p <> [] -> tbytes (p :: r) tg <> [].
 Proof.
   intros H E. cbn [tbytes] in E. apply app_eq_nil in E. destruct E as [_ E].
   apply app_eq_nil in E. tauto.
-Qed.
-
-Lemma regap_cond_main e : bytes e = [] -> 0 <= sp e -> forall ps st tg body,
-  trace_ok st ps tg -> main_inv st -> main_trace ps -> map bytes body = map g_b ps ->
-  (tg = [] -> sp e = 0) ->
-  layout_okb (body ++ [e]) = true ->
-  regap_cond st ps tg (gaps_of body) (spaces (sp e)).
-Proof.
-  intros He Hsp. induction ps as [|p r IH]; intros st tg body Ht Hi Hm Hb Htg Hl;
-    destruct body as [|x f]; try discriminate.
-  - cbn. split; [apply repeatZ_blank|]. intros _. apply Hi.
-  - cbn [map] in Hb. inversion Hb as [[Hx Hf]].
-    cbn [trace_ok] in Ht. destruct Ht as (Hbl & Hgm & Hne & Hnb & (lk & Hp) & Hbf & Ha & Hen & Htr).
-    cbn [main_trace] in Hm. destruct Hm as (Ee & Hs & Heof & Hi' & Hm).
-    cbn [app layout_okb] in Hl. apply andb_true_iff in Hl. destruct Hl as [Hl Hl'].
-    apply andb_true_iff in Hl. destruct Hl as [_ Htail].
-    destruct Hi as [Hc Hr].
-    cbn [gaps_of map regap_cond]. fold (gaps_of f).
-    split; [apply repeatZ_blank|]. split; [intros _; exact Hc|].
-    assert (Hw : tbytes (regap r (gaps_of f)) (spaces (sp e)) = write (f ++ [e])).
-    { symmetry. apply write_regap; assumption. }
-    split.
-    { intro E. destruct r as [|p' r'].
-      - cbn [tbytes] in E. destruct f; [|discriminate]. cbn. rewrite (Htg E). reflexivity.
-      - exfalso. cbn [trace_ok] in Htr. destruct Htr as (_ & _ & Hne' & _).
-        exact (tbytes_nonempty p' r' tg Hne' E). }
-    split.
-    { exists lk. rewrite Hc in Hp |- *. change (hcl_rules MMain) with rules_main in *.
-      rewrite Hw.
-      apply (main_pick_stable st (g_rule p) lk (g_n p) (g_b p) (tbytes r tg) (g_emit p) (g_nst p)); auto.
-      - rewrite Ee. intros ty [<-|[]]. destruct (simple_ty_inv _ Hs) as (H1 & H2 & _). auto.
-      - intro E. destruct r as [|p' r'].
-        + cbn [tbytes] in E. destruct f; [|discriminate]. cbn [app]. rewrite write_cons, He, (Htg E).
-          reflexivity.
-        + exfalso. cbn [trace_ok] in Htr. destruct Htr as (_ & _ & Hne' & _).
-          exact (tbytes_nonempty p' r' tg Hne' E).
-      - rewrite <- Hx. apply tail_okb_ok. exact Htail. }
-    apply IH; auto.
 Qed.
 
 (* ---- the theorem for the main-scanner fragment ---------------------------------------- *)
@@ -1499,13 +1389,6 @@ Proof.
   rewrite zlen_spaces by exact Hpx. destruct x as [tx bx gx sx]. cbn in *. subst. reflexivity.
 Qed.
 
-Lemma layout_sp_nonneg : forall out, layout_okb out = true -> forallb (fun t => 0 <=? sp t) out = true.
-Proof.
-  induction out as [|x f IH]; intro H; [reflexivity|]. cbn [layout_okb] in H.
-  apply andb_true_iff in H. destruct H as [H H2]. apply andb_true_iff in H. destruct H as [H1 _].
-  cbn [forallb]. rewrite H1, IH by exact H2. reflexivity.
-Qed.
-
 Lemma skel_bytes g : forall ps body,
   map skel body = map skel (map (wt_step g) ps) -> map bytes body = map g_b ps.
 Proof.
@@ -1513,35 +1396,878 @@ Proof.
   cbn [map] in *. injection Hsk as E1 E2 E3 Hf. f_equal; [exact E2|apply IH; exact Hf].
 Qed.
 
-Theorem relex_exact_main g data ks :
-  lex_main data = Some ks -> simple ks = true ->
+(* ==== 4b. the string scanner: a clean match survives a change of what follows ======== *)
+
+(* ---- UTF-8 length ----------------------------------------------------------------------- *)
+
+Lemma utf8_len_need c x m : utf8_len (c :: x) = Some m -> m = utf8_need c /\ (m <= length (c :: x))%nat /\ (1 <= m)%nat.
+Proof.
+  unfold utf8_len, utf8_need. destruct (c <? 128). { intro H; inversion H; simpl; lia. }
+  destruct ((192 <=? c) && (c <=? 223)).
+  { destruct x as [|c1 x]; [discriminate|]. destruct (is_cont c1); [|discriminate]. intro H; inversion H; simpl; lia. }
+  destruct ((224 <=? c) && (c <=? 239)).
+  { destruct x as [|c1 [|c2 x]]; try discriminate. destruct (is_cont c1 && is_cont c2); [|discriminate].
+    intro H; inversion H; simpl; lia. }
+  destruct ((240 <=? c) && (c <=? 247)); [|discriminate].
+  destruct x as [|c1 [|c2 [|c3 x]]]; try discriminate. destruct (is_cont c1 && is_cont c2 && is_cont c3); [|discriminate].
+  intro H; inversion H; simpl; lia.
+Qed.
+
+(* ---- span_quoted -------------------------------------------------------------------------- *)
+
+Lemma sq_ge : forall s skip acc, (skip <= length s)%nat -> (acc + skip <= span_quoted s skip acc)%nat.
+Proof.
+  induction s as [|c r IH]; intros skip acc H; cbn [span_quoted length] in *; [lia|].
+  destruct skip as [|k]; [|specialize (IH k (S acc) ltac:(lia)); lia].
+  destruct (c =? 92).
+  { destruct r as [|c2 r']; [lia|]. destruct (is_nlchar c2); [lia|].
+    destruct (utf8_len (c2 :: r')) as [a|] eqn:E; [|lia].
+    destruct (utf8_len_need _ _ _ E) as (_ & Hl & _). specialize (IH a (S acc) Hl). lia. }
+  destruct (is_nlchar c || is_dp c || (c =? 34)); [lia|].
+  destruct (utf8_len (c :: r)) as [[|a]|] eqn:E; try lia.
+  destruct (utf8_len_need _ _ _ E) as (_ & Hl & _). simpl in Hl. specialize (IH a (S acc) ltac:(lia)). lia.
+Qed.
+
+Definition sq_stop (t : list Z) : Prop := forall acc, span_quoted t 0 acc = acc.
+
+Lemma sq_stop_nil : sq_stop [].
+Proof. intro; reflexivity. Qed.
+
+Lemma sq_stop_hard c y : (c =? 34) || is_dp c = true -> sq_stop (c :: y).
+Proof.
+  intros H acc. cbn [span_quoted].
+  assert (E92 : (c =? 92) = false).
+  { unfold is_dp in H. destruct (c =? 92) eqn:E; [|reflexivity]. apply Z.eqb_eq in E. subst c. discriminate H. }
+  rewrite E92. apply orb_true_iff in H. destruct H as [H|H]; rewrite H; rewrite ?orb_true_r; reflexivity.
+Qed.
+
+Lemma sq_app : forall b t skip acc, (skip <= length (b ++ t))%nat ->
+  span_quoted (b ++ t) skip acc = (acc + length b)%nat ->
+  forall t', sq_stop t' -> span_quoted (b ++ t') skip acc = (acc + length b)%nat.
+Proof.
+  induction b as [|c b IH]; intros t skip acc Hk H t' Hs.
+  - cbn [app length] in *. destruct skip as [|k]; [rewrite Hs; lia|].
+    pose proof (sq_ge t (S k) acc Hk). lia.
+  - cbn [app length] in *. destruct skip as [|k].
+    2:{ cbn [span_quoted] in *. rewrite (IH t k (S acc) ltac:(lia) ltac:(lia) t' Hs). lia. }
+    cbn [span_quoted] in *. destruct (c =? 92).
+    { destruct b as [|c2 b'].
+      - exfalso. cbn [app length] in *. destruct t as [|c2 t0]; [lia|]. destruct (is_nlchar c2); [lia|].
+        destruct (utf8_len (c2 :: t0)) as [a|] eqn:E; [|lia].
+        destruct (utf8_len_need _ _ _ E) as (_ & Hl & Ha). pose proof (sq_ge (c2 :: t0) a (S acc) Hl). lia.
+      - cbn [app length] in *. destruct (is_nlchar c2); [lia|].
+        destruct (utf8_len (c2 :: b' ++ t)) as [a|] eqn:E; [|lia].
+        destruct (utf8_len_need _ _ _ E) as (En & Hl & Ha).
+        assert (Hab : (a <= length (c2 :: b'))%nat).
+        { destruct (Nat.le_gt_cases a (length (c2 :: b'))); [assumption|].
+          pose proof (sq_ge (c2 :: b' ++ t) a (S acc) Hl). cbn [length] in *. lia. }
+        assert (E' : utf8_len (c2 :: b' ++ t') = Some a).
+        { rewrite <- E. symmetry. apply (utf8_len_app c2 b' t t'). rewrite <- En. exact Hab. }
+        rewrite E'.
+        rewrite (IH t a (S acc) ltac:(cbn [app length] in *; lia) ltac:(cbn [app length] in *; lia) t' Hs).
+        cbn [length]. lia. }
+    destruct (is_nlchar c || is_dp c || (c =? 34)); [lia|].
+    destruct (utf8_len (c :: b ++ t)) as [[|a]|] eqn:E; try lia.
+    destruct (utf8_len_need _ _ _ E) as (En & Hl & _). cbn [length] in Hl.
+    assert (Hab : (a <= length b)%nat).
+    { destruct (Nat.le_gt_cases a (length b)); [assumption|].
+      pose proof (sq_ge (b ++ t) a (S acc) ltac:(lia)). lia. }
+    assert (E' : utf8_len (c :: b ++ t') = Some (S a)).
+    { rewrite <- E. symmetry. apply (utf8_len_app c b t t'). rewrite <- En. cbn [length]. lia. }
+    rewrite E'. rewrite (IH t a (S acc) ltac:(lia) ltac:(lia) t' Hs). lia.
+Qed.
+
+(* the first character of a non-empty span lies inside it *)
+Lemma sq_first c x k : span_quoted (c :: x) 0 0 = S k ->
+  (utf8_need c <= S k)%nat /\ is_nlchar c = false /\ is_dp c = false /\ (c =? 34) = false.
+Proof.
+  cbn [span_quoted]. destruct (c =? 92) eqn:E92.
+  { apply Z.eqb_eq in E92. subst c. intro H. repeat split; try reflexivity. vm_compute. lia. }
+  destruct (is_nlchar c) eqn:E1; [discriminate|]. destruct (is_dp c) eqn:E2; [discriminate|].
+  destruct (c =? 34) eqn:E3; [discriminate|]. cbn [orb].
+  destruct (utf8_len (c :: x)) as [[|a]|] eqn:E; try discriminate.
+  destruct (utf8_len_need _ _ _ E) as (En & Hl & _). cbn [length] in Hl.
+  intro H. pose proof (sq_ge x a 1%nat ltac:(lia)). repeat split; try reflexivity. lia.
+Qed.
+
+Lemma sq_shift : forall s skip acc d, span_quoted s skip (acc + d) = (span_quoted s skip acc + d)%nat.
+Proof.
+  induction s as [|c r IH]; intros skip acc d; cbn [span_quoted]; [reflexivity|].
+  destruct skip as [|k]; [|apply (IH k (S acc) d)].
+  destruct (c =? 92).
+  { destruct r as [|c2 r']; [reflexivity|]. destruct (is_nlchar c2); [reflexivity|].
+    destruct (utf8_len (c2 :: r')); [apply (IH _ (S acc) d)|reflexivity]. }
+  destruct (is_nlchar c || is_dp c || (c =? 34)); [reflexivity|].
+  destruct (utf8_len (c :: r)) as [[|a]|]; try reflexivity. apply (IH a (S acc) d).
+Qed.
+
+Lemma sq_cont : forall b t skip acc, (skip <= length (b ++ t))%nat ->
+  span_quoted (b ++ t) skip acc = (acc + length b)%nat -> span_quoted t 0 0 = O.
+Proof.
+  induction b as [|c b IH]; intros t skip acc Hk H.
+  - cbn [app length] in *. destruct skip as [|k].
+    + pose proof (sq_shift t 0 0 acc) as E. cbn in E. rewrite E in H. lia.
+    + pose proof (sq_ge t (S k) acc Hk). lia.
+  - cbn [app length] in *. destruct skip as [|k].
+    2:{ cbn [span_quoted] in H. apply (IH t k (S acc)); lia. }
+    cbn [span_quoted] in H. destruct (c =? 92).
+    { destruct b as [|c2 b'].
+      - exfalso. cbn [app length] in *. destruct t as [|c2 t0]; [lia|]. destruct (is_nlchar c2); [lia|].
+        destruct (utf8_len (c2 :: t0)) as [a|] eqn:E; [|lia].
+        destruct (utf8_len_need _ _ _ E) as (_ & Hl & Ha). pose proof (sq_ge (c2 :: t0) a (S acc) Hl). lia.
+      - cbn [app length] in *. destruct (is_nlchar c2); [lia|].
+        destruct (utf8_len (c2 :: b' ++ t)) as [a|] eqn:E; [|lia].
+        destruct (utf8_len_need _ _ _ E) as (En & Hl & Ha).
+        apply (IH t a (S acc)); cbn [app length] in *; lia. }
+    destruct (is_nlchar c || is_dp c || (c =? 34)); [lia|].
+    destruct (utf8_len (c :: b ++ t)) as [[|a]|] eqn:E; try lia.
+    destruct (utf8_len_need _ _ _ E) as (En & Hl & _). cbn [length] in Hl.
+    apply (IH t a (S acc)); lia.
+Qed.
+
+(* ---- tmpl_not_seq ---------------------------------------------------------------------------- *)
+
+Lemma tns_nodp d x : is_dp d = false -> tmpl_not_seq (d :: x) = TNo.
+Proof. intro H. unfold tmpl_not_seq. destruct x as [|c r2]; [reflexivity|]. rewrite H. reflexivity. Qed.
+
+Lemma tns_open d x : tmpl_not_seq (d :: 123 :: x) = TNo.
+Proof. unfold tmpl_not_seq. destruct (is_dp d); reflexivity. Qed.
+
+Lemma is_dp_cases d : is_dp d = true -> d = 36 \/ d = 37.
+Proof. unfold is_dp. intro H. apply orb_true_iff in H. destruct H as [H|H]; apply Z.eqb_eq in H; auto. Qed.
+
+(* ---- matchers of the string scanner ------------------------------------------------------------ *)
+
+Definition m_tmpl_open' (d : Z) (s : list Z) : option (nat * nat) :=
+  match s with
+  | c :: c1 :: r => if (c1 =? 123) && (c =? d) then (if starts_with 126 r then same 3 else same 2) else None
+  | _ => None
+  end.
+
+Lemma m_tmpl_open_eq d s : m_tmpl_open d s = m_tmpl_open' d s.
+Proof.
+  unfold m_tmpl_open, m_tmpl_open'. destruct s as [|c [|c1 r]]; try reflexivity.
+  zcase c1. destruct (c =? d); [|reflexivity]. cbn [andb].
+  destruct r as [|c2 r']; [reflexivity|]. unfold starts_with. zcase c2.
+Qed.
+
+Lemma gs_open d c x : (c =? d) = false -> m_tmpl_open d (c :: x) = None.
+Proof.
+  intro H. rewrite m_tmpl_open_eq. unfold m_tmpl_open'. destruct x as [|c1 r]; [reflexivity|].
+  rewrite H, andb_false_r. reflexivity.
+Qed.
+
+Lemma gs_open2 d c c1 x : (c1 =? 123) = false -> m_tmpl_open d (c :: c1 :: x) = None.
+Proof. intro H. rewrite m_tmpl_open_eq. unfold m_tmpl_open'. rewrite H. reflexivity. Qed.
+
+Lemma gs_nlseq c x : is_nlchar c = false -> m_nlseq (c :: x) = None.
+Proof. intro H. unfold m_nlseq. cbn [span_nl]. rewrite H. reflexivity. Qed.
+
+Lemma gs_tsl_nodp c x : is_dp c = false ->
+  m_tmpl_string_lit (c :: x) = match span_quoted (c :: x) 0 0 with O => None | n => same n end.
+Proof. intro H. unfold m_tmpl_string_lit. rewrite (tns_nodp c x H). reflexivity. Qed.
+
+Lemma gs_tsl_open d x : is_dp d = true -> m_tmpl_string_lit (d :: 123 :: x) = None.
+Proof.
+  intro H. unfold m_tmpl_string_lit. rewrite tns_open. cbn [span_quoted].
+  destruct (is_dp_cases d H) as [-> | ->]; reflexivity.
+Qed.
+
+Ltac each_string_rule Hin tac :=
+  unfold rules_string in Hin; cbn [In] in Hin;
+  repeat (destruct Hin as [<-|Hin]; [unfold R; cbn [r_match]; tac|]); try (destruct Hin).
+
+Definition agree2 (t t' : list Z) : Prop :=
+  firstn 2 t = firstn 2 t' \/ (exists y y', t = 34 :: y /\ t' = 34 :: y').
+
+Lemma agree2_hd t t' c y : agree2 t t' -> t = c :: y -> exists y', t' = c :: y'.
+Proof.
+  intros [H|(y0 & y' & E1 & E2)] E.
+  - subst t. destruct t' as [|c' y']; [destruct y; discriminate|]. destruct y, y'; inversion H; eauto.
+  - subst t'. rewrite E1 in E. inversion E. eauto.
+Qed.
+
+Definition tmpl_not_seq' (s : list Z) : tni :=
+  match s with
+  | d :: c :: r2 =>
+      if is_dp d then
+        if c =? 123 then TNo
+        else if c =? d then
+          match r2 with
+          | e1 :: r3 => if e1 =? 123 then (if starts_with 126 r3 then TEsc 4 else TEsc 3) else THold r2
+          | [] => THold r2
+          end
+        else THold r2
+      else TNo
+  | _ => TNo
+  end.
+
+Lemma tmpl_not_seq_eq s : tmpl_not_seq s = tmpl_not_seq' s.
+Proof.
+  unfold tmpl_not_seq, tmpl_not_seq'. destruct s as [|d [|c r2]]; try reflexivity.
+  destruct (is_dp d); [|reflexivity]. destruct (c =? 123); [reflexivity|]. destruct (c =? d); [|reflexivity].
+  destruct r2 as [|e1 r3]; [reflexivity|]. zcase e1.
+  destruct r3 as [|e2 r4]; [reflexivity|]. unfold starts_with. zcase e2.
+Qed.
+
+Definition hard_or_nil (t : list Z) : Prop :=
+  t = [] \/ exists c y, t = c :: y /\ ((c =? 34) || is_dp c = true).
+
+Definition emits_clean (e : emit) : Prop := forall ty, In ty (emit_types e) -> clean_ty ty = true.
+
+Ltac unclean_s Ha Hok :=
+  exfalso; cbn [r_act] in Ha; unfold a_tok in Ha; inversion Ha; subst;
+  match type of Hok with emits_clean (EOne ?t) =>
+    let H := fresh in assert (H : clean_ty t = true) by (apply Hok; left; reflexivity);
+    vm_compute in H; discriminate H end.
+
+(* agreement of the rules that do not depend on the tail once the first byte is known *)
+Ltac agree_s :=
+  first [ rewrite !gs_open by reflexivity; reflexivity
+        | rewrite !g_lit by reflexivity; reflexivity
+        | rewrite !gs_nlseq by reflexivity; reflexivity
+        | rewrite !g_utf8_ascii by reflexivity; reflexivity
+        | rewrite !g_broken by reflexivity; reflexivity
+        | reflexivity ].
+
+Lemma string_pick_stable (st : hstate) r lk n b t e st' t' :
+  b <> [] ->
+  pick rules_string (b ++ t) None = Some (r, lk, n) ->
+  b = firstn (Nat.max 1 n) (b ++ t) ->
+  r_act r st b = Some (e, st') -> emits_clean e ->
+  (t = [] -> t' = []) ->
+  (e = EOne TokenQuotedLit -> agree2 t t') ->
+  (e = EOne TokenQuotedLit -> span_quoted t 0 0 = O -> hard_or_nil t) ->
+  ((e = EOne TokenTemplateInterp \/ e = EOne TokenTemplateControl) ->
+     forall d, b = [d; 123] -> starts_with 126 t' = false) ->
+  pick rules_string (b ++ t') None = Some (r, lk, n).
+Proof.
+  intros Hne Hp Hb Ha Hok Ht Hag Hhard Hopen.
+  destruct t as [|t0 t1].
+  { rewrite (Ht eq_refl). exact Hp. }
+  assert (Hlen : length b = Nat.max 1 n) by (eapply firstn_app_len; [exact Hb|discriminate]).
+  clear Ht Hb.
+  rewrite <- Hp. symmetry. apply pick_ext.
+  pose proof Hp as Hp2. apply pick_spec in Hp2. destruct Hp2 as [Hx|(Hin & Hm & Hlk)]; [discriminate|].
+  destruct b as [|c b']; [contradiction|]. cbn [app] in *. clear Hne.
+  unfold rules_string in Hin; cbn [In] in Hin.
+  (* the two openers *)
+  assert (Hopener : forall d ty, (d = 36 \/ d = 37) -> (ty = TokenTemplateInterp \/ ty = TokenTemplateControl) ->
+            r = R (m_tmpl_open d) (a_begin_tmpl ty) ->
+            forall r', In r' rules_string -> r_match r' (c :: b' ++ t0 :: t1) = r_match r' (c :: b' ++ t')).
+  { intros d ty Hd Hty -> r' Hin'. unfold R in Hm. cbn [r_match] in Hm. rewrite m_tmpl_open_eq in Hm.
+    assert (Hoe : e = EOne TokenTemplateInterp \/ e = EOne TokenTemplateControl).
+    { unfold R in Ha. cbn [r_act] in Ha. unfold a_begin_tmpl in Ha. inversion Ha. destruct Hty as [-> | ->]; auto. }
+    specialize (Hopen Hoe).
+    destruct b' as [|c1 b''].
+    { exfalso. cbn [app m_tmpl_open'] in Hm. destruct ((t0 =? 123) && (c =? d)); [|discriminate].
+      cbn [length] in Hlen. destruct (starts_with 126 t1); unfold same in Hm; inversion Hm; subst; simpl in Hlen; lia. }
+    cbn [app m_tmpl_open'] in Hm.
+    destruct ((c1 =? 123) && (c =? d)) eqn:E; [|discriminate].
+    apply andb_true_iff in E. destruct E as [E1 E2]. apply Z.eqb_eq in E1, E2. subst c1 c.
+    destruct (starts_with 126 (b'' ++ t0 :: t1)) eqn:Es; unfold same in Hm; inversion Hm; subst lk n; cbn [length Nat.max] in Hlen.
+    - destruct b'' as [|c2 [|c3 b3]]; simpl in Hlen; try lia. cbn [app starts_with] in Es. apply Z.eqb_eq in Es. subst c2.
+      cbn [app]. destruct Hd as [-> | ->]; each_string_rule Hin' ltac:(first
+        [ rewrite !m_tmpl_open_eq; reflexivity | rewrite !gs_tsl_open by reflexivity; reflexivity | agree_s ]).
+    - destruct b'' as [|c2 b3]; simpl in Hlen; try lia. cbn [app] in *.
+      specialize (Hopen d eq_refl).
+      destruct Hd as [-> | ->]; each_string_rule Hin' ltac:(first
+        [ rewrite !m_tmpl_open_eq; unfold m_tmpl_open'; cbn [Z.eqb andb]; rewrite Es, Hopen; reflexivity
+        | rewrite !m_tmpl_open_eq; reflexivity
+        | rewrite !gs_tsl_open by reflexivity; reflexivity | agree_s ]). }
+  destruct Hin as [<-|Hin]; [eapply Hopener; [left; reflexivity|left; reflexivity|reflexivity]|].
+  destruct Hin as [<-|Hin]; [eapply Hopener; [right; reflexivity|right; reflexivity|reflexivity]|].
+  clear Hopener.
+  destruct Hin as [<-|Hin].
+  { (* closing quote *)
+    unfold R in Hm. cbn [r_match] in Hm. apply m_lit_inv in Hm. destruct Hm as (Hpre & -> & ->).
+    apply is_prefix_hd in Hpre. subst c. cbn [length Nat.max] in Hlen.
+    destruct b' as [|x b'']; [|simpl in Hlen; lia]. cbn [app].
+    intros r' Hin'. each_string_rule Hin' ltac:(first
+      [ rewrite !gs_tsl_nodp by reflexivity; reflexivity | agree_s ]). }
+  destruct Hin as [<-|Hin].
+  { (* a literal *)
+    assert (He : e = EOne TokenQuotedLit) by (cbn [r_act R] in Ha; unfold a_tok in Ha; inversion Ha; reflexivity).
+    specialize (Hag He). specialize (Hhard He).
+    destruct (agree2_hd _ _ _ _ Hag eq_refl) as (t1' & ->).
+    unfold R in Hm. cbn [r_match] in Hm. unfold m_tmpl_string_lit in Hm.
+    rewrite tmpl_not_seq_eq in Hm.
+    destruct (tmpl_not_seq' (c :: b' ++ t0 :: t1)) as [k|r2|] eqn:Et.
+    - (* escape $${ / %%{ *)
+      unfold same in Hm. inversion Hm; subst lk n. clear Hm.
+      unfold tmpl_not_seq' in Et.
+      destruct b' as [|c1 b'']; cbn [app] in Et.
+      { exfalso. destruct (is_dp c); [|discriminate]. destruct (t0 =? 123); [discriminate|].
+        destruct (t0 =? c); [|discriminate]. destruct t1 as [|e1 r3]; [discriminate|].
+        destruct (e1 =? 123); [|discriminate]. cbn [length] in Hlen.
+        destruct (starts_with 126 r3); inversion Et; subst k; simpl in Hlen; lia. }
+      destruct (is_dp c) eqn:Edp; [|discriminate]. destruct (c1 =? 123) eqn:E123; [discriminate|].
+      destruct (c1 =? c) eqn:Ecc; [|discriminate]. apply Z.eqb_eq in Ecc. subst c1.
+      destruct b'' as [|c2 b3]; cbn [app] in Et.
+      { exfalso. destruct (t0 =? 123); [|discriminate]. cbn [length] in Hlen.
+        destruct (starts_with 126 t1); inversion Et; subst k; simpl in Hlen; lia. }
+      destruct (c2 =? 123) eqn:E2; [|discriminate]. apply Z.eqb_eq in E2. subst c2.
+      assert (Hnew : tmpl_not_seq' (c :: c :: 123 :: b3 ++ t0 :: t1') = TEsc k).
+      { unfold tmpl_not_seq'. rewrite Edp, E123, Z.eqb_refl. cbn [Z.eqb].
+        destruct (starts_with 126 (b3 ++ t0 :: t1)) eqn:Es; inversion Et; subst k; cbn [length Nat.max] in Hlen.
+        - destruct b3 as [|c3 [|c4 b4]]; simpl in Hlen; try lia. cbn [app starts_with] in *. rewrite Es. reflexivity.
+        - destruct b3 as [|c3 b4]; simpl in Hlen; try lia. cbn [app starts_with] in *. rewrite Es. reflexivity. }
+      assert (Hold : tmpl_not_seq' (c :: c :: 123 :: b3 ++ t0 :: t1) = TEsc k).
+      { unfold tmpl_not_seq'. rewrite Edp, E123, Z.eqb_refl. cbn [Z.eqb]. exact Et. }
+      intros r' Hin'. cbn [app].
+      destruct (is_dp_cases c Edp) as [-> | ->];
+        each_string_rule Hin' ltac:(first
+          [ rewrite !gs_open2 by reflexivity; reflexivity
+          | unfold m_tmpl_string_lit; rewrite !tmpl_not_seq_eq, Hnew, Hold; reflexivity
+          | agree_s ]).
+    - (* a lone $ or % *)
+      inversion Hm; subst lk n. clear Hm. cbn [length Nat.max] in Hlen.
+      destruct b' as [|x b'']; [|simpl in Hlen; lia]. cbn [app] in *.
+      unfold tmpl_not_seq' in Et.
+      destruct (is_dp c) eqn:Edp; [|discriminate]. destruct (t0 =? 123) eqn:E123; [discriminate|].
+      assert (Hnew : exists r2', tmpl_not_seq' (c :: t0 :: t1') = THold r2').
+      { unfold tmpl_not_seq'. rewrite Edp, E123. destruct (t0 =? c) eqn:Ecc; [|eauto].
+        destruct Hag as [Hag|(y & y' & Ey & Ey')].
+        - destruct t1 as [|e1 r3]; destruct t1' as [|e1' r3']; cbn in Hag; try discriminate; [eauto|].
+          inversion Hag; subst e1'. destruct (e1 =? 123); [|eauto].
+          destruct (starts_with 126 r3); discriminate.
+        - exfalso. inversion Ey; subst t0. apply Z.eqb_eq in Ecc. subst c. discriminate Edp. }
+      destruct Hnew as (r2' & Hnew).
+      assert (Hold : tmpl_not_seq' (c :: t0 :: t1) = THold r2).
+      { unfold tmpl_not_seq'. rewrite Edp, E123. exact Et. }
+      intros r' Hin'.
+      destruct (is_dp_cases c Edp) as [-> | ->];
+        each_string_rule Hin' ltac:(first
+          [ rewrite !gs_open2 by exact E123; reflexivity
+          | unfold m_tmpl_string_lit; rewrite !tmpl_not_seq_eq, Hnew, Hold; reflexivity
+          | agree_s ]).
+    - (* a run of ordinary characters and escapes *)
+      destruct (span_quoted (c :: b' ++ t0 :: t1) 0 0) as [|k] eqn:Es; [discriminate|].
+      unfold same in Hm. inversion Hm; subst lk n. clear Hm.
+      destruct (sq_first _ _ _ Es) as (Hneed & Hnl & Hdp & H34).
+      replace (Nat.max 1 (S k)) with (S k) in Hlen by lia.
+      assert (Hst : sq_stop (t0 :: t1')).
+      { assert (H0 : span_quoted (t0 :: t1) 0 0 = O).
+        { apply (sq_cont (c :: b') (t0 :: t1) 0 0 ltac:(lia)). rewrite Hlen. exact Es. }
+        destruct (Hhard H0) as [Hx|(c0 & y & Ey & Hc0)]; [discriminate|].
+        inversion Ey; subst c0 y. apply sq_stop_hard. exact Hc0. }
+      assert (Hnew : span_quoted (c :: b' ++ t0 :: t1') 0 0 = S k).
+      { rewrite <- Hlen. apply (sq_app (c :: b') (t0 :: t1) 0 0 ltac:(lia)); [rewrite Hlen; exact Es|exact Hst]. }
+      assert (Hu : utf8_len (c :: b' ++ t0 :: t1) = utf8_len (c :: b' ++ t0 :: t1')).
+      { apply (utf8_len_app c b' (t0 :: t1) (t0 :: t1')). rewrite Hlen. exact Hneed. }
+      assert (E36 : (c =? 36) = false /\ (c =? 37) = false).
+      { unfold is_dp in Hdp. apply orb_false_iff in Hdp. exact Hdp. }
+      destruct E36 as [E36 E37].
+      assert (En : (c =? 10) = false /\ (c =? 13) = false).
+      { unfold is_nlchar in Hnl. apply orb_false_iff in Hnl. tauto. }
+      intros r' Hin'.
+      each_string_rule Hin' ltac:(first
+        [ rewrite !gs_open by assumption; reflexivity
+        | rewrite !g_lit by (rewrite Z.eqb_sym; exact H34); reflexivity
+        | rewrite !gs_tsl_nodp by exact Hdp; rewrite Es, Hnew; reflexivity
+        | rewrite !gs_nlseq by exact Hnl; reflexivity
+        | unfold m_any_utf8; rewrite Hu; reflexivity
+        | reflexivity ]). }
+  destruct Hin as [<-|Hin]; [unclean_s Ha Hok|].
+  destruct Hin as [<-|Hin]; [unclean_s Ha Hok|].
+  destruct Hin as [<-|Hin]; [unclean_s Ha Hok|].
+  destruct Hin.
+Qed.
+
+(* ==== 5. steps of both scanners; re-spacing with templates; layout => relex ======== *)
+
+(* token types that only the string scanner emits (lexed without skipping blanks) *)
+
+(* the fragment: everything clean except heredocs *)
+
+Definition okm (m : hmode) : Prop := m = MMain \/ m = MString.
+Definition okmodes (st : hstate) : Prop := Forall okm (l_cur st :: l_stack st).
+Definition Inv (st : hstate) : Prop := hinv st /\ okmodes st.
+
+Lemma nohd_ty_inv t : nohd_ty t = true -> clean_ty t = true /\ t <> TokenOHeredoc.
+Proof.
+  unfold nohd_ty. intro H. apply andb_true_iff in H. destruct H as [H1 H2].
+  apply negb_true_iff in H2. apply Z.eqb_neq in H2. auto.
+Qed.
+
+Lemma okmodes_fcall m st : okm m -> okmodes st -> okmodes (fcall m st).
+Proof. intros Hm H. unfold okmodes, fcall. cbn. constructor; assumption. Qed.
+
+Lemma okmodes_fret st st' : fret st = Some st' -> okmodes st -> okmodes st'.
+Proof.
+  unfold fret, okmodes. destruct (l_stack st) as [|m r] eqn:E; [discriminate|]. intro H. inversion H; subst.
+  cbn. intro Ho. inversion Ho; subst. assumption.
+Qed.
+
+Lemma okmodes_same (st st' : hstate) : l_cur st' = l_cur st -> l_stack st' = l_stack st -> okmodes st -> okmodes st'.
+Proof. unfold okmodes. intros -> ->. auto. Qed.
+
+(* ---- one step of the main scanner, any state ------------------------------------------------ *)
+
+Lemma self_not_tl c : existsb (Z.eqb c) self_chars = true -> tl_ty c = false.
+Proof.
+  intro H. apply self_chars_cases in H. unfold self_chars in H. cbn [In] in H.
+  repeat (destruct H as [<-|H]; [reflexivity|]). destruct H.
+Qed.
+
+Lemma main_step2 (st : hstate) r s lk n e st' :
+  okmodes st -> l_cur st = MMain -> In r rules_main -> r_match r s = Some (lk, n) ->
+  r_act r st (firstn (Nat.max 1 n) s) = Some (e, st') -> e <> ENone ->
+  (forall ty, In ty (emit_types e) -> nohd_ty ty = true) ->
+  exists ty, e = EOne ty /\ tl_ty ty = false /\ okmodes st' /\
+             (l_cur st' = MMain \/ l_cur st' = MString) /\
+             (l_cur st' = MString -> ty = TokenOQuote \/ ty = TokenTemplateSeqEnd).
+Proof.
+  intros Ho Hc Hin Hm Ha He Hs.
+  assert (Keep : forall ty, e = EOne ty -> tl_ty ty = false -> l_cur st' = l_cur st -> l_stack st' = l_stack st ->
+            exists ty0, e = EOne ty0 /\ tl_ty ty0 = false /\ okmodes st' /\
+                        (l_cur st' = MMain \/ l_cur st' = MString) /\
+                        (l_cur st' = MString -> ty0 = TokenOQuote \/ ty0 = TokenTemplateSeqEnd)).
+  { intros ty -> Ht Hc' Hk. exists ty. split; [reflexivity|]. split; [exact Ht|]. split.
+    - eapply okmodes_same; eassumption.
+    - rewrite Hc', Hc. split; [left; reflexivity|]. intro; discriminate. }
+  unfold rules_main, rule_spaces in Hin; cbn [In] in Hin.
+  repeat (destruct Hin as [<-|Hin];
+    [ cbn [r_act R] in Ha;
+      first
+        [ unfold a_skip in Ha; inversion Ha; subst; contradiction
+        | unfold a_tok in Ha; inversion Ha; subst; eapply Keep; reflexivity
+        | cbn [r_match R] in Hm; apply m_self_inv in Hm; destruct Hm as (-> & -> & c0 & y0 & -> & Hself);
+          unfold a_self in Ha; simpl in Ha; inversion Ha; subst;
+          eapply Keep; [reflexivity|apply self_not_tl; exact Hself|reflexivity|reflexivity]
+        | unfold a_open_brace in Ha; inversion Ha; subst; eapply Keep; reflexivity
+        | unfold a_close in Ha; destruct (ret_matches st);
+          [ destruct (fret _) as [st1|] eqn:Ef; [|discriminate]; inversion Ha; subst;
+            exists TokenTemplateSeqEnd; split; [reflexivity|]; split; [reflexivity|];
+            assert (Ho' : okmodes st') by (eapply okmodes_fret; [exact Ef|eapply okmodes_same; [| |exact Ho]; reflexivity]);
+            split; [exact Ho'|]; split; [inversion Ho' as [|? ? Hk _]; exact Hk|]; intro; right; reflexivity
+          | inversion Ha; subst; eapply Keep; reflexivity ]
+        | unfold a_begin_string in Ha; inversion Ha; subst;
+          exists TokenOQuote; split; [reflexivity|]; split; [reflexivity|];
+          split; [apply okmodes_fcall; [right; reflexivity|exact Ho]|];
+          split; [right; reflexivity|]; intro; left; reflexivity
+        | exfalso; apply a_begin_heredoc_emit in Ha; subst;
+          specialize (Hs TokenOHeredoc (or_introl eq_refl)); vm_compute in Hs; discriminate ]
+    |]).
+  destruct Hin.
+Qed.
+
+(* ---- one step of the string scanner ------------------------------------------------------------ *)
+
+Lemma string_top_main (st : hstate) : hinv st -> l_cur st = MString -> exists l, l_stack st = MMain :: l.
+Proof.
+  intros (W & _) E. rewrite E in W. inversion W; subst;
+    try (match goal with H : _ \/ _ |- _ => destruct H as [H|[H|H]]; discriminate end); eauto.
+Qed.
+
+Lemma m_tmpl_open_inv d s lk n : m_tmpl_open d s = Some (lk, n) ->
+  lk = n /\ (2 <= n)%nat /\ exists x, s = d :: 123 :: x.
+Proof.
+  rewrite m_tmpl_open_eq. unfold m_tmpl_open'. destruct s as [|c [|c1 r]]; try discriminate.
+  destruct ((c1 =? 123) && (c =? d)) eqn:E; [|discriminate]. apply andb_true_iff in E. destruct E as [E1 E2].
+  apply Z.eqb_eq in E1, E2. subst. unfold same. destruct (starts_with 126 r); intro H; inversion H; subst; repeat split; eauto.
+Qed.
+
+Lemma string_step2 (st : hstate) r s lk n e st' :
+  Inv st -> l_cur st = MString -> In r rules_string -> r_match r s = Some (lk, n) ->
+  r_act r st (firstn (Nat.max 1 n) s) = Some (e, st') -> emits_clean e ->
+  exists ty, e = EOne ty /\ tl_ty ty = true /\ okmodes st' /\
+    (((ty = TokenTemplateInterp \/ ty = TokenTemplateControl) /\ l_cur st' = MMain /\
+        (2 <= length (firstn (Nat.max 1 n) s))%nat /\ exists d x, s = d :: 123 :: x)
+     \/ (ty = TokenCQuote /\ l_cur st' = MMain /\ exists x, s = 34 :: x /\ n = 1%nat)
+     \/ (ty = TokenQuotedLit /\ st' = st)).
+Proof.
+  intros [Hi Ho] Hc Hin Hm Ha Hok.
+  unfold rules_string in Hin; cbn [In] in Hin.
+  assert (Hopen : forall d ty, (ty = TokenTemplateInterp \/ ty = TokenTemplateControl) ->
+     m_tmpl_open d s = Some (lk, n) -> a_begin_tmpl ty st (firstn (Nat.max 1 n) s) = Some (e, st') ->
+     exists ty0, e = EOne ty0 /\ tl_ty ty0 = true /\ okmodes st' /\
+    (((ty0 = TokenTemplateInterp \/ ty0 = TokenTemplateControl) /\ l_cur st' = MMain /\
+        (2 <= length (firstn (Nat.max 1 n) s))%nat /\ exists d x, s = d :: 123 :: x)
+     \/ (ty0 = TokenCQuote /\ l_cur st' = MMain /\ exists x, s = 34 :: x /\ n = 1%nat)
+     \/ (ty0 = TokenQuotedLit /\ st' = st))).
+  { intros d ty Hty Hm' Ha'. apply m_tmpl_open_inv in Hm'. destruct Hm' as (-> & Hn & x & ->).
+    unfold a_begin_tmpl in Ha'. inversion Ha'; subst e st'. exists ty. split; [reflexivity|].
+    split; [destruct Hty as [-> | ->]; reflexivity|]. split.
+    { apply okmodes_fcall; [left; reflexivity|].
+      destruct (set_top_sol _ _) eqn:Es.
+      - unfold set_top_sol in Es. cbn in Es. destruct (l_hdocs st); [discriminate|]. inversion Es; subst.
+        eapply okmodes_same; [| |exact Ho]; reflexivity.
+      - eapply okmodes_same; [| |exact Ho]; reflexivity. }
+    left. split; [exact Hty|]. split; [reflexivity|]. split.
+    - replace (Nat.max 1 n) with n by lia. rewrite firstn_length. simpl. lia.
+    - eauto. }
+  destruct Hin as [<-|Hin]; [eapply Hopen; [left; reflexivity|exact Hm|exact Ha]|].
+  destruct Hin as [<-|Hin]; [eapply Hopen; [right; reflexivity|exact Hm|exact Ha]|].
+  clear Hopen.
+  destruct Hin as [<-|Hin].
+  { cbn [r_act R] in Ha. unfold a_end_string in Ha. destruct (fret st) as [st1|] eqn:Ef; [|discriminate].
+    inversion Ha; subst e st1. exists TokenCQuote. split; [reflexivity|]. split; [reflexivity|].
+    split; [eapply okmodes_fret; eassumption|]. right. left. split; [reflexivity|].
+    destruct (string_top_main st Hi Hc) as (l & El). unfold fret in Ef. rewrite El in Ef. inversion Ef; subst st'.
+    split; [reflexivity|]. cbn [r_match R] in Hm. apply m_lit_inv in Hm. destruct Hm as (Hp & _ & ->).
+    destruct s as [|c x]; [discriminate|]. apply is_prefix_hd in Hp. subst c. eauto. }
+  destruct Hin as [<-|Hin].
+  { cbn [r_act R] in Ha. unfold a_tok in Ha. inversion Ha; subst e st'. exists TokenQuotedLit.
+    split; [reflexivity|]. split; [reflexivity|]. split; [exact Ho|]. right. right. auto. }
+  destruct Hin as [<-|Hin]; [unclean_s Ha Hok|].
+  destruct Hin as [<-|Hin]; [unclean_s Ha Hok|].
+  destruct Hin as [<-|Hin]; [unclean_s Ha Hok|].
+  destruct Hin.
+Qed.
+
+(* ---- where a run of ordinary characters ends ------------------------------------------------------ *)
+
+(* a clean token of the string scanner in front of which such a run ended starts with
+   the closing quote, '$' or '%' *)
+Lemma string_next_hard (st : hstate) r s lk n e st' :
+  In r rules_string -> r_match r s = Some (lk, n) -> (0 < lk)%nat ->
+  r_act r st (firstn (Nat.max 1 n) s) = Some (e, st') -> emits_clean e ->
+  span_quoted s 0 0 = O -> hard_or_nil s.
+Proof.
+  intros Hin Hm Hlk Ha Hok Hs.
+  unfold rules_string in Hin; cbn [In] in Hin.
+  destruct Hin as [<-|Hin].
+  { cbn [r_match R] in Hm. apply m_tmpl_open_inv in Hm. destruct Hm as (_ & _ & x & ->). right. exists 36, (123 :: x). auto. }
+  destruct Hin as [<-|Hin].
+  { cbn [r_match R] in Hm. apply m_tmpl_open_inv in Hm. destruct Hm as (_ & _ & x & ->). right. exists 37, (123 :: x). auto. }
+  destruct Hin as [<-|Hin].
+  { cbn [r_match R] in Hm. apply m_lit_inv in Hm. destruct Hm as (Hp & _).
+    destruct s as [|c x]; [discriminate|]. apply is_prefix_hd in Hp. subst c. right. exists 34, x. auto. }
+  destruct Hin as [<-|Hin].
+  { cbn [r_match R] in Hm. unfold m_tmpl_string_lit in Hm. rewrite tmpl_not_seq_eq in Hm.
+    destruct s as [|d x]; [cbn in Hm; discriminate|].
+    destruct (is_dp d) eqn:Edp.
+    - right. exists d, x. split; [reflexivity|]. rewrite Edp. apply orb_true_r.
+    - exfalso. rewrite <- tmpl_not_seq_eq, (tns_nodp d x Edp), Hs in Hm. discriminate. }
+  destruct Hin as [<-|Hin]; [unclean_s Ha Hok|].
+  destruct Hin as [<-|Hin]; [unclean_s Ha Hok|].
+  destruct Hin as [<-|Hin]; [unclean_s Ha Hok|].
+  destruct Hin.
+Qed.
+
+(* ---- traces of sources without heredocs --------------------------------------------------------- *)
+
+Fixpoint gen_trace (st : hstate) (ps : list step) : Prop :=
+  Inv st /\ (l_cur st = MMain \/ l_cur st = MString) /\
+  match ps with
+  | [] => True
+  | p :: r => g_emit p = EOne (ty_of p) /\ nohd_ty (ty_of p) = true /\ ty_of p <> TokenEOF /\
+              (if tl_ty (ty_of p) then l_cur st = MString else l_cur st = MMain) /\
+              (l_cur st = MString -> ty_of p = TokenQuotedLit -> g_nst p = st) /\
+              (l_cur (g_nst p) = MString ->
+                 ty_of p = TokenOQuote \/ ty_of p = TokenTemplateSeqEnd \/ ty_of p = TokenQuotedLit) /\
+              gen_trace (g_nst p) r
+  end.
+
+Lemma gen_trace_inv st ps : gen_trace st ps -> Inv st /\ (l_cur st = MMain \/ l_cur st = MString).
+Proof. destruct ps; cbn [gen_trace]; tauto. Qed.
+
+Lemma gen_trace_of : forall ps st tg off,
+  trace_ok st ps tg -> Inv st -> (l_cur st = MMain \/ l_cur st = MString) ->
+  forallb (fun k => nohd_ty (k_ty k)) (ttoks off ps tg) = true -> gen_trace st ps.
+Proof.
+  induction ps as [|p r IH]; intros st tg off Ht Hi Hmode Hs; cbn [gen_trace]; [tauto|].
+  split; [exact Hi|]. split; [exact Hmode|].
+  cbn [trace_ok] in Ht. destruct Ht as (Hbl & Hgm & Hne & Hnb & (lk & Hp) & Hb & Ha & He & Htr).
+  cbn [ttoks] in Hs. rewrite forallb_app in Hs. apply andb_true_iff in Hs. destruct Hs as [Hs1 Hs2].
+  pose proof Hp as Hp2. apply pick_spec in Hp2. destruct Hp2 as [Hx|(Hin & Hm & Hlk)]; [discriminate|].
+  assert (Hty : forall ty, In ty (emit_types (g_emit p)) -> nohd_ty ty = true).
+  { intros ty Hty. rewrite <- (tokens_emit_types (g_emit p) (off + zlen (g_gap p)) (g_b p)) in Hty.
+    apply in_map_iff in Hty. destruct Hty as (k & <- & Hk).
+    rewrite forallb_forall in Hs1. apply (Hs1 k Hk). }
+  destruct Hi as [Hh Ho]. rewrite Hb in Ha.
+  destruct (hcl_step_ok st _ _ _ _ Hh Hin Hm Hlk) as (e0 & st0 & Ha0 & Hh').
+  rewrite Ha in Ha0. inversion Ha0; subst e0 st0. clear Ha0.
+  assert (Hneof : forall ty, g_emit p = EOne ty -> ty <> TokenEOF).
+  { intros ty Ee. eapply (hcl_emitted_types (l_cur st)); [exact Hin|exact Hm|exact Ha|rewrite Ee; left; reflexivity]. }
+  destruct Hmode as [Hc|Hc].
+  - rewrite Hc in Hin. change (hcl_rules MMain) with rules_main in Hin.
+    destruct (main_step2 st _ _ _ _ _ _ Ho Hc Hin Hm Ha He Hty) as (ty & Ee & Htl & Ho' & Hm' & Hq).
+    unfold ty_of. rewrite Ee in *. rewrite Htl.
+    split; [reflexivity|]. split; [apply Hty; left; reflexivity|]. split; [apply Hneof; reflexivity|].
+    split; [exact Hc|]. split; [intro; congruence|]. split; [intros Hx; destruct (Hq Hx) as [Hy|Hy]; auto|].
+    eapply IH; [exact Htr|split; assumption|exact Hm'|exact Hs2].
+  - rewrite Hc in Hin. change (hcl_rules MString) with rules_string in Hin.
+    assert (Hcl : emits_clean (g_emit p)).
+    { intros ty Hx. apply Hty in Hx. apply nohd_ty_inv in Hx. tauto. }
+    destruct (string_step2 st _ _ _ _ _ _ (conj Hh Ho) Hc Hin Hm Ha Hcl) as (ty & Ee & Htl & Ho' & Hcase).
+    unfold ty_of. rewrite Ee in *. rewrite Htl.
+    split; [reflexivity|]. split; [apply Hty; left; reflexivity|]. split; [apply Hneof; reflexivity|].
+    split; [exact Hc|]. split.
+    { intros _ Hq. destruct Hcase as [([Hx|Hx] & _)|[(Hx & _)|(_ & Hx)]]; try (rewrite Hx in Hq; discriminate). exact Hx. }
+    split.
+    { intro Hx. destruct Hcase as [(_ & Hy & _)|[(_ & Hy & _)|(Hy & _)]]; [congruence|congruence|auto]. }
+    eapply IH; [exact Htr|split; assumption| |exact Hs2].
+    destruct Hcase as [(_ & Hx & _)|[(_ & Hx & _)|(_ & Hx)]]; [left; exact Hx|left; exact Hx|right; rewrite Hx; exact Hc].
+Qed.
+
+(* ---- the layout condition, with templates ------------------------------------------------------- *)
+
+(* "${" / "%{" written without "~": the next byte must not be "~" *)
+
+(* tokens of the string scanner carry no space before them; after every other
+   token the following bytes must not continue it (tail_okb) *)
+
+Lemma layout_cons x f : layout_okb (x :: f) = true ->
+  0 <= sp x /\
+  (tl_ty (ty x) = true -> sp x = 0 /\ (is_tmpl_open (ty x) = true -> opener_okb (bytes x) (write f) = true)) /\
+  (tl_ty (ty x) = false -> tail_okb (bytes x) (write f) = true) /\
+  layout_okb f = true.
+Proof.
+  cbn [layout_okb]. intro H. apply andb_true_iff in H. destruct H as [H H3].
+  apply andb_true_iff in H. destruct H as [H1 H2]. apply Z.leb_le in H1.
+  split; [exact H1|]. split; [|split; [|exact H3]].
+  - intro Ht. rewrite Ht in H2. apply andb_true_iff in H2. destruct H2 as [Ha Hb]. apply Z.eqb_eq in Ha.
+    split; [exact Ha|]. intro Ho. rewrite Ho in Hb. exact Hb.
+  - intro Ht. rewrite Ht in H2. exact H2.
+Qed.
+
+(* the rest of the input after a token of the string scanner, old and new *)
+Section Tails.
+  Variable e : tok.
+  Hypothesis He : bytes e = [].
+  Hypothesis Hspe : 0 <= sp e.
+
+  Definition aligned (ps : list step) (body : list tok) : Prop :=
+    map bytes body = map g_b ps /\ map ty body = map ty_of ps.
+
+  Lemma aligned_cons p r x f : aligned (p :: r) (x :: f) ->
+    bytes x = g_b p /\ ty x = ty_of p /\ aligned r f.
+  Proof. intros [H1 H2]. cbn [map] in *. inversion H1. inversion H2. repeat split; assumption. Qed.
+
+  Lemma aligned_nil_l body : aligned [] body -> body = [].
+  Proof. intros [H _]. destruct body; [reflexivity|discriminate]. Qed.
+
+  Lemma aligned_nil_r ps : aligned ps [] -> ps = [].
+  Proof. intros [H _]. destruct ps; [reflexivity|discriminate]. Qed.
+
+  (* in string mode: both tails are empty or start with the same byte *)
+  Lemma str_tail_hd st ps tg body :
+    trace_ok st ps tg -> gen_trace st ps -> l_cur st = MString -> aligned ps body ->
+    (tg = [] -> sp e = 0) -> layout_okb (body ++ [e]) = true ->
+    (tbytes ps tg = [] /\ tbytes (regap ps (gaps_of body)) (spaces (sp e)) = []) \/
+    (exists c y y', tbytes ps tg = c :: y /\ tbytes (regap ps (gaps_of body)) (spaces (sp e)) = c :: y').
+  Proof.
+    intros Ht Hg Hc Hal Htg Hl. destruct ps as [|p r].
+    - left. cbn [trace_ok] in Ht. destruct Ht as [_ Hm].
+      assert (tg = []). { destruct tg; [reflexivity|]. specialize (Hm ltac:(discriminate)). congruence. }
+      subst tg. rewrite (aligned_nil_l _ Hal). cbn. rewrite (Htg eq_refl). split; reflexivity.
+    - right. destruct body as [|x f]; [apply aligned_nil_r in Hal; discriminate|].
+      destruct (aligned_cons _ _ _ _ Hal) as (Hbx & Htx & Hal').
+      cbn [trace_ok] in Ht. destruct Ht as (Hbl & Hgm & Hne & _).
+      cbn [gen_trace] in Hg. destruct Hg as (_ & _ & _ & _ & _ & Htl & _).
+      assert (Hgap : g_gap p = []). { destruct (g_gap p); [reflexivity|]. specialize (Hgm ltac:(discriminate)). congruence. }
+      destruct (tl_ty (ty_of p)) eqn:Et; [|congruence].
+      cbn [app] in Hl. destruct (layout_cons _ _ Hl) as (_ & Hs0 & _). rewrite Htx in Hs0. destruct (Hs0 Et) as [Hs0' _].
+      cbn [tbytes gaps_of map regap set_gap g_gap g_b]. rewrite Hgap, Hs0'. change (spaces 0) with (@nil Z). cbn [app].
+      destruct (g_b p) as [|c y]; [contradiction|]. cbn [app]. eauto.
+  Qed.
+
+  Lemma firstn2_app (b x y : list Z) : (2 <= length b)%nat -> firstn 2 (b ++ x) = firstn 2 (b ++ y).
+  Proof. destruct b as [|c1 [|c2 b]]; simpl; try lia. reflexivity. Qed.
+
+  (* the classification of a string-mode step of a trace *)
+  Lemma trace_string_step st p r tg :
+    trace_ok st (p :: r) tg -> gen_trace st (p :: r) -> l_cur st = MString ->
+    g_gap p = [] /\
+    (((ty_of p = TokenTemplateInterp \/ ty_of p = TokenTemplateControl) /\ l_cur (g_nst p) = MMain /\
+        (2 <= length (g_b p))%nat /\ exists d x, g_b p ++ tbytes r tg = d :: 123 :: x)
+     \/ (ty_of p = TokenCQuote /\ l_cur (g_nst p) = MMain /\ g_b p = [34])
+     \/ (ty_of p = TokenQuotedLit /\ g_nst p = st)).
+  Proof.
+    intros Ht Hg Hc. cbn [trace_ok] in Ht. destruct Ht as (Hbl & Hgm & Hne & Hnb & (lk & Hp) & Hb & Ha & Hen & Htr).
+    cbn [gen_trace] in Hg. destruct Hg as (Hi & _ & Ee & Hnh & _).
+    split. { destruct (g_gap p); [reflexivity|]. specialize (Hgm ltac:(discriminate)). congruence. }
+    pose proof Hp as Hp2. apply pick_spec in Hp2. destruct Hp2 as [Hx|(Hin & Hm & Hlk)]; [discriminate|].
+    rewrite Hc in Hin. change (hcl_rules MString) with rules_string in Hin.
+    assert (Hcl : emits_clean (g_emit p)).
+    { rewrite Ee. intros ty [<-|[]]. apply nohd_ty_inv in Hnh. tauto. }
+    pose proof Ha as Ha'. rewrite Hb in Ha'.
+    destruct (string_step2 st _ _ _ _ _ _ Hi Hc Hin Hm Ha' Hcl) as (ty & Ee' & Htl & Ho' & Hcase).
+    rewrite Ee in Ee'. inversion Ee'. subst ty. rewrite <- Hb in Hcase.
+    destruct Hcase as [(H1 & H2 & H3 & H4)|[(H1 & H2 & x & Hs & Hn)|H3]]; [left; auto| |right; right; exact H3].
+    right. left. split; [exact H1|]. split; [exact H2|]. rewrite Hb, Hs, Hn. reflexivity.
+  Qed.
+
+  Lemma str_tail_agree2 st ps tg body :
+    trace_ok st ps tg -> gen_trace st ps -> l_cur st = MString -> aligned ps body ->
+    (tg = [] -> sp e = 0) -> layout_okb (body ++ [e]) = true ->
+    agree2 (tbytes ps tg) (tbytes (regap ps (gaps_of body)) (spaces (sp e))).
+  Proof.
+    intros Ht Hg Hc Hal Htg Hl.
+    destruct ps as [|p r].
+    { destruct (str_tail_hd st [] tg body Ht Hg Hc Hal Htg Hl) as [[-> ->]|(c & y & y' & E1 & E2)]; [left; reflexivity|].
+      rewrite E1, E2. cbn [trace_ok] in Ht. destruct Ht as [_ Hm]. cbn [tbytes] in E1. subst tg.
+      specialize (Hm ltac:(discriminate)). congruence. }
+    destruct body as [|x f]; [apply aligned_nil_r in Hal; discriminate|].
+    destruct (aligned_cons _ _ _ _ Hal) as (Hbx & Htx & Hal').
+    destruct (trace_string_step st p r tg Ht Hg Hc) as (Hgap & Hcase).
+    pose proof Ht as Ht0. cbn [trace_ok] in Ht. destruct Ht as (_ & _ & Hne & _ & _ & _ & _ & _ & Htr).
+    pose proof Hg as Hg0. cbn [gen_trace] in Hg. destruct Hg as (_ & _ & _ & _ & _ & Htl & _ & _ & Hg').
+    destruct (tl_ty (ty_of p)) eqn:Et; [|congruence].
+    cbn [app] in Hl. destruct (layout_cons _ _ Hl) as (_ & Hs0 & _ & Hl'). rewrite Htx in Hs0. destruct (Hs0 Et) as [Hs0' _].
+    cbn [tbytes gaps_of map regap set_gap g_gap g_b]. rewrite Hgap, Hs0'. change (spaces 0) with (@nil Z). cbn [app].
+    fold (gaps_of f).
+    destruct (g_b p) as [|c [|c2 b3]] eqn:Eb; [contradiction| |left; apply (firstn2_app (c :: c2 :: b3)); simpl; lia].
+    destruct Hcase as [(_ & _ & Hlen & _)|[(_ & _ & E34)|(_ & Hst)]].
+    - simpl in Hlen. lia.
+    - inversion E34; subst c. right. cbn [app]. eauto.
+    - rewrite Hst in Htr, Hg'.
+      destruct (str_tail_hd st r tg f Htr Hg' Hc Hal' Htg Hl') as [[-> ->]|(c1 & y & y' & -> & ->)]; left; reflexivity.
+  Qed.
+
+  (* after a literal the scanner is still in string mode; if a run of ordinary
+     characters ended there, the next token starts with a quote, '$' or '%' *)
+  Lemma str_tail_hard st ps tg :
+    trace_ok st ps tg -> gen_trace st ps -> l_cur st = MString ->
+    span_quoted (tbytes ps tg) 0 0 = O -> hard_or_nil (tbytes ps tg).
+  Proof.
+    intros Ht Hg Hc Hs. destruct ps as [|p r].
+    { cbn [trace_ok] in Ht. destruct Ht as [_ Hm]. cbn [tbytes] in *.
+      destruct tg; [left; reflexivity|]. specialize (Hm ltac:(discriminate)). congruence. }
+    destruct (trace_string_step st p r tg Ht Hg Hc) as (Hgap & _).
+    cbn [trace_ok] in Ht. destruct Ht as (Hbl & Hgm & Hne & Hnb & (lk & Hp) & Hb & Ha & Hen & Htr).
+    cbn [gen_trace] in Hg. destruct Hg as (Hi & _ & Ee & Hnh & _).
+    cbn [tbytes] in *. rewrite Hgap in *. cbn [app] in *.
+    pose proof Hp as Hp2. apply pick_spec in Hp2. destruct Hp2 as [Hx|(Hin & Hm & Hlk)]; [discriminate|].
+    rewrite Hc in Hin. change (hcl_rules MString) with rules_string in Hin.
+    assert (Hcl : emits_clean (g_emit p)).
+    { rewrite Ee. intros ty [<-|[]]. apply nohd_ty_inv in Hnh. tauto. }
+    rewrite Hb in Ha. eapply string_next_hard; eassumption.
+  Qed.
+
+  (* ---- the new gaps satisfy regap_cond ------------------------------------------------------------ *)
+
+  Lemma regap_cond_gen : forall ps st tg body,
+    trace_ok st ps tg -> gen_trace st ps -> aligned ps body ->
+    (tg = [] -> sp e = 0) -> layout_okb (body ++ [e]) = true ->
+    regap_cond st ps tg (gaps_of body) (spaces (sp e)).
+  Proof.
+    induction ps as [|p r IH]; intros st tg body Ht Hg Hal Htg Hl.
+    - rewrite (aligned_nil_l _ Hal). cbn. split; [apply repeatZ_blank|].
+      intro Hne. cbn [trace_ok] in Ht. destruct Ht as [_ Hm]. apply Hm. intros ->.
+      rewrite (Htg eq_refl) in Hne. apply Hne. reflexivity.
+    - destruct body as [|x f]; [apply aligned_nil_r in Hal; discriminate|].
+      destruct (aligned_cons _ _ _ _ Hal) as (Hbx & Htx & Hal').
+      pose proof Ht as Ht0. pose proof Hg as Hg0.
+      cbn [trace_ok] in Ht. destruct Ht as (Hbl & Hgm & Hne & Hnb & (lk & Hp) & Hbf & Ha & Hen & Htr).
+      cbn [gen_trace] in Hg. destruct Hg as (Hi & Hmode & Ee & Hnh & Heof & Htl & Hql & _ & Hg').
+      cbn [app] in Hl. destruct (layout_cons _ _ Hl) as (Hsx & Hl1 & Hl2 & Hl').
+      rewrite Htx in Hl1, Hl2.
+      cbn [gaps_of map regap_cond]. fold (gaps_of f).
+      assert (Hw : tbytes (regap r (gaps_of f)) (spaces (sp e)) = write (f ++ [e])).
+      { symmetry. apply write_regap; [exact He|]. destruct Hal' as [H1 _]. exact H1. }
+      assert (Hnil : tbytes r tg = [] -> tbytes (regap r (gaps_of f)) (spaces (sp e)) = []).
+      { intro E. destruct r as [|p' r'].
+        - cbn [tbytes] in E. rewrite (aligned_nil_l _ Hal'). cbn. rewrite (Htg E). reflexivity.
+        - exfalso. cbn [trace_ok] in Htr. destruct Htr as (_ & _ & Hne' & _).
+          exact (tbytes_nonempty p' r' tg Hne' E). }
+      destruct (tl_ty (ty_of p)) eqn:Et.
+      + (* a token of the string scanner: no gap *)
+        destruct (Hl1 eq_refl) as [Hs0 Hop]. rewrite Hs0. change (spaces 0) with (@nil Z).
+        split; [reflexivity|]. split; [intro Hx; contradiction|]. split; [exact Hnil|]. split.
+        * exists lk. rewrite Htl in Hp |- *. change (hcl_rules MString) with rules_string in *.
+          apply (string_pick_stable st (g_rule p) lk (g_n p) (g_b p) (tbytes r tg) (g_emit p) (g_nst p)); auto.
+          -- rewrite Ee. intros ty [<-|[]]. apply nohd_ty_inv in Hnh. tauto.
+          -- intro Eq. rewrite Ee in Eq. inversion Eq as [Eq'].
+             rewrite (Hql Htl Eq') in Htr, Hg'.
+             apply (str_tail_agree2 st r tg f Htr Hg' Htl Hal' Htg Hl').
+          -- intros Eq Hs. rewrite Ee in Eq. inversion Eq as [Eq'].
+             rewrite (Hql Htl Eq') in Htr, Hg'.
+             apply (str_tail_hard st r tg Htr Hg' Htl Hs).
+          -- intros Hoe d Eb. rewrite Hw.
+             assert (Hio : is_tmpl_open (ty_of p) = true).
+             { rewrite Ee in Hoe. destruct Hoe as [Hoe|Hoe]; inversion Hoe as [Hoe']; rewrite Hoe'; reflexivity. }
+             specialize (Hop Hio). rewrite Hbx, Eb in Hop. cbn in Hop.
+             apply negb_true_iff in Hop. exact Hop.
+        * apply IH; auto.
+      + (* a token of the main scanner *)
+        split; [apply repeatZ_blank|]. split; [intros _; exact Htl|]. split; [exact Hnil|]. split.
+        * exists lk. rewrite Htl in Hp |- *. change (hcl_rules MMain) with rules_main in *.
+          rewrite Hw.
+          apply (main_pick_stable st (g_rule p) lk (g_n p) (g_b p) (tbytes r tg) (g_emit p) (g_nst p)); auto.
+          -- rewrite Ee. intros ty [<-|[]]. apply nohd_ty_inv in Hnh. exact Hnh.
+          -- intro E. rewrite <- Hw. apply Hnil. exact E.
+          -- rewrite <- Hbx. apply tail_okb_ok. apply Hl2. reflexivity.
+        * apply IH; auto.
+  Qed.
+End Tails.
+
+(* ---- the theorem for sources without heredocs ---------------------------------------------------- *)
+
+Definition eone (ps : list step) : Prop := Forall (fun p => g_emit p = EOne (ty_of p)) ps.
+
+Lemma wt_ttoks_eone g : forall ps tg off, eone ps ->
+  writer_tokens g off (ttoks off ps tg) = wt_steps g ps tg.
+Proof.
+  induction ps as [|p r IH]; intros tg off Hm.
+  - cbn. unfold wt_eof. f_equal. f_equal. lia.
+  - inversion Hm as [|? ? Ee Hm']; subst.
+    cbn [ttoks]. rewrite Ee. cbn [emit_items tokens_of app writer_tokens k_ty k_bytes k_s k_e].
+    rewrite IH by exact Hm'. unfold wt_steps. cbn [map app]. f_equal. unfold wt_step. f_equal. lia.
+Qed.
+
+Lemma eone_regap : forall ps gs, length gs = length ps -> eone ps -> eone (regap ps gs).
+Proof.
+  induction ps as [|p r IH]; intros gs Hl Hm; destruct gs as [|g gs']; simpl in Hl; try lia; [constructor|].
+  inversion Hm; subst. cbn [regap]. constructor; [unfold ty_of in *; cbn [set_gap g_emit]; assumption|].
+  apply IH; [lia|assumption].
+Qed.
+
+Lemma gen_trace_eone : forall ps st, gen_trace st ps -> eone ps /\ Forall (fun p => ty_of p <> TokenEOF) ps.
+Proof.
+  induction ps as [|p r IH]; intros st H; [split; constructor|].
+  cbn [gen_trace] in H. destruct H as (_ & _ & Ee & _ & Hne & _ & _ & _ & H).
+  destruct (IH _ H) as [H1 H2]. split; constructor; assumption.
+Qed.
+
+Lemma skel_tys g : forall ps body,
+  map skel body = map skel (map (wt_step g) ps) -> map ty body = map ty_of ps.
+Proof.
+  induction ps as [|p r IH]; intros body Hsk; destruct body as [|x f]; try discriminate; [reflexivity|].
+  cbn [map] in *. injection Hsk as E1 E2 E3 Hf. f_equal; [exact E1|apply IH; exact Hf].
+Qed.
+
+Lemma Inv_init : Inv (init_state MMain).
+Proof.
+  split; [apply hinv_init; left; reflexivity|]. unfold okmodes, init_state. cbn. constructor; [left; reflexivity|constructor].
+Qed.
+
+Lemma layout_nonneg : forall out, layout_okb out = true -> forallb (fun t => 0 <=? sp t) out = true.
+Proof.
+  induction out as [|x f IH]; intro H; [reflexivity|]. destruct (layout_cons _ _ H) as (H1 & _ & _ & H4).
+  cbn [forallb]. rewrite IH by exact H4. rewrite andb_true_r. apply Z.leb_le. exact H1.
+Qed.
+
+Theorem relex_exact_nohd g data ks :
+  lex_main data = Some ks -> noheredoc ks = true ->
   layout_okb (format (writer_tokens g 0 ks)) = true ->
   exists ks', relex (format (writer_tokens g 0 ks)) = Some ks' /\
               writer_tokens g 0 ks' = format (writer_tokens g 0 ks).
 Proof.
-  intros Hlex Hsimple Hlay. unfold lex_main in Hlex.
+  intros Hlex Hfrag Hlay. unfold lex_main in Hlex.
   destruct (hcl_scan MMain data) as [its fin] eqn:Hscan. destruct fin; try discriminate.
   inversion Hlex; subst ks. clear Hlex.
   unfold hcl_scan, scan in Hscan. fold M0 in Hscan.
   assert (Hclean : forallb (fun k => clean_ty (k_ty k)) (tokens_of its) = true).
-  { unfold simple in Hsimple. rewrite forallb_forall in Hsimple |- *. intros k Hk.
-    specialize (Hsimple k Hk). apply simple_ty_inv in Hsimple. tauto. }
+  { unfold noheredoc in Hfrag. rewrite forallb_forall in Hfrag |- *. intros k Hk.
+    specialize (Hfrag k Hk). apply nohd_ty_inv in Hfrag. tauto. }
   destruct (run_trace _ _ _ _ _ Hscan Hclean) as (ps & tg & Hdata & Htr & Htk).
-  assert (Hi0 : main_inv (init_state MMain)) by (split; reflexivity).
-  rewrite Htk in Hsimple.
-  pose proof (simple_trace ps _ tg 0 Htr Hi0 Hsimple) as Hm.
-  rewrite Htk in *. rewrite (wt_ttoks g ps tg 0 Hm) in *. unfold wt_steps in *.
+  unfold noheredoc in Hfrag. rewrite Htk in Hfrag.
+  pose proof (gen_trace_of ps _ tg 0 Htr Inv_init (or_introl eq_refl) Hfrag) as Hg.
+  destruct (gen_trace_eone _ _ Hg) as [Heone Hneof].
+  rewrite Htk in *. rewrite (wt_ttoks_eone g ps tg 0 Heone) in *. unfold wt_steps in *.
   assert (Hnoeof : forallb (fun t => negb (is (ty t) TokenEOF)) (map (wt_step g) ps) = true).
-  { clear -Hm. induction ps as [|p r IH]; [reflexivity|]. cbn [main_trace] in Hm.
-    destruct Hm as (_ & _ & Hne & _ & Hm). cbn [map forallb]. rewrite (IH Hm), andb_true_r.
+  { clear -Hneof. induction Hneof as [|p r Hne _ IH]; [reflexivity|]. cbn [map forallb]. rewrite IH, andb_true_r.
     unfold wt_step, is. cbn [ty]. apply negb_true_iff. apply Z.eqb_neq. exact Hne. }
   destruct (format_eof_last (map (wt_step g) ps) (wt_eof g tg) Hnoeof eq_refl) as (body & Hfmt & Hsk).
   rewrite Hfmt in *.
   set (e := wt_eof g tg) in *.
-  pose proof (skel_bytes g ps body Hsk) as Hbytes.
+  pose proof (skel_bytes g ps body Hsk) as Hbytes. pose proof (skel_tys g ps body Hsk) as Htys.
   assert (Hspe : 0 <= sp e) by (unfold e, wt_eof; cbn [sp]; apply zlen_nonneg).
   assert (Htg0 : tg = [] -> sp e = 0) by (intros ->; reflexivity).
-  pose proof (regap_cond_main e eq_refl Hspe ps _ tg body Htr Hi0 Hm Hbytes Htg0 Hlay) as Hcond.
+  pose proof (regap_cond_gen e eq_refl ps _ tg body Htr Hg (conj Hbytes Htys) Htg0 Hlay) as Hcond.
   pose proof (regap_trace _ _ _ _ _ Htr Hcond) as Htr'.
   destruct (trace_run _ _ _ 0 Htr') as (fuel & its' & Hrun & Htk').
   rewrite <- (write_regap e eq_refl ps body Hbytes) in Hrun.
@@ -1551,14 +2277,14 @@ Proof.
   - rewrite Htk'.
     assert (Hlen : length (gaps_of body) = length ps).
     { unfold gaps_of. rewrite map_length. apply (f_equal (@length _)) in Hbytes. rewrite !map_length in Hbytes. exact Hbytes. }
-    rewrite (wt_ttoks g _ _ 0 (main_trace_regap ps _ Hlen Hm)). unfold wt_steps.
-    pose proof (layout_sp_nonneg _ Hlay) as Hnn. rewrite forallb_app in Hnn.
+    rewrite (wt_ttoks_eone g _ _ 0 (eone_regap ps _ Hlen Heone)). unfold wt_steps.
+    pose proof (layout_nonneg _ Hlay) as Hnn. rewrite forallb_app in Hnn.
     apply andb_true_iff in Hnn. destruct Hnn as [Hnn _].
     rewrite (wt_steps_regap g ps body Hsk Hnn). f_equal. f_equal.
     unfold e, wt_eof. cbn [sp]. rewrite zlen_spaces by apply zlen_nonneg. reflexivity.
 Qed.
 
-(* ==== 5. the formatter establishes the layout condition ======================== *)
+(* ==== 6. the formatter establishes the layout condition ======================== *)
 
 Definition b2z (b : bool) : Z := if b then 1 else 0.
 
@@ -1784,10 +2510,17 @@ Qed.
 Definition just (prev t : tok) : Prop :=
   tok_is_newline prev = true \/ ty prev = TokenNil \/ ty t = TokenEqual \/ ty t = TokenComment.
 
+Definition bf_ok (prev x bf : tok) : Prop := bf = prev \/ (bf = nil_tok /\ just prev x).
+
+(* the first token of an assign or comment cell *)
+Definition cellfirst (y : tok) : Prop := 1 <= sp y /\ (ty y = TokenEqual \/ ty y = TokenComment).
+
+(* y directly after x: y starts a line (x is newline-like), or starts a cell, or carries
+   exactly the verdict of space_after *)
 Definition pairP (prev x y : tok) : Prop :=
   0 <= sp y /\
-  (sp y = 0 -> tok_is_newline x = true \/ space_after x prev y = false \/
-               (space_after x nil_tok y = false /\ just prev x)).
+  (tok_is_newline x = true \/ cellfirst y \/
+   exists bf, bf_ok prev x bf /\ sp y = b2z (space_after x bf y)).
 
 Fixpoint fine (prev : tok) (l : list tok) : Prop :=
   match l with
@@ -1795,10 +2528,10 @@ Fixpoint fine (prev : tok) (l : list tok) : Prop :=
   | _ => True
   end.
 
-Definition link (x y : tok) : Prop := 0 <= sp y /\ (sp y = 0 -> tok_is_newline x = true).
+Definition link (x y : tok) : Prop := 0 <= sp y /\ (tok_is_newline x = true \/ cellfirst y).
 
 Lemma link_pairP p x y : link x y -> pairP p x y.
-Proof. intros [H1 H2]. split; [exact H1|]. intro H. left. apply H2. exact H. Qed.
+Proof. intros [H1 [H2|H2]]; split; auto. Qed.
 
 Lemma fine_go : forall r bf s prev, go_fine bf s r ->
   (bf = prev \/ (bf = nil_tok /\ just prev s)) -> fine prev (s :: r).
@@ -1806,8 +2539,7 @@ Proof.
   induction r as [|a r IH]; intros bf s prev H Hb; [exact I|].
   cbn [go_fine] in H. destruct H as [H1 H2]. cbn [fine]. split.
   - split; [rewrite H1; destruct (space_after s bf a); cbn; lia|].
-    intro H0. rewrite H1 in H0. destruct (space_after s bf a) eqn:E; [discriminate|].
-    destruct Hb as [->|[-> Hj]]; [right; left; exact E|right; right; split; assumption].
+    right. right. exists bf. split; [exact Hb|exact H1].
   - eapply IH; [exact H2|left; reflexivity].
 Qed.
 
@@ -1838,8 +2570,16 @@ Proof.
   eapply fine_go; [exact H|right; split; [reflexivity|exact Hj]].
 Qed.
 
-Lemma ge1_link x y : 1 <= sp y -> link x y.
-Proof. intro H. split; [lia|]. intro H0. lia. Qed.
+Lemma cell_link x y : cellfirst y -> link x y.
+Proof. intros [H1 H2]. split; [lia|]. right. split; assumption. Qed.
+
+Lemma pairP_zero prev x y : pairP prev x y -> sp y = 0 ->
+  tok_is_newline x = true \/ space_after x prev y = false \/ (space_after x nil_tok y = false /\ just prev x).
+Proof.
+  intros [_ [H|[[H _]|(bf & Hb & H)]]] H0; [left; exact H|lia|].
+  rewrite H0 in H. destruct (space_after x bf y) eqn:E; [discriminate|].
+  destruct Hb as [->|[-> Hj]]; [right; left; exact E|right; right; split; assumption].
+Qed.
 
 Lemma fine_line raw l prev : LI4 raw l -> lead_just prev -> fine prev (line_toks l).
 Proof.
@@ -1854,16 +2594,18 @@ Proof.
     { apply fine_cell_first; [exact Hca|]. right. right. left. exact Ha. }
     destruct (comment l) as [|tc rc] eqn:Ec; [rewrite app_nil_r; exact Hfa|].
     apply (fine_app_link (ta :: ra) p nil_tok tc rc); [discriminate|exact Hfa| |].
-    - apply ge1_link. exact Hgc.
+    - apply cell_link. split; [exact Hgc|]. right. destruct rc; [exact Hc|contradiction].
     - apply Hcom. }
   destruct (lead l) as [|tl rl] eqn:El; [apply Hac|].
   assert (Hfl : fine prev (tl :: rl)).
   { apply fine_cell_first; [exact Hcl|]. destruct Hj as [Hj|Hj]; [left; exact Hj|right; left; exact Hj]. }
   destruct (assign l ++ comment l) as [|y r2] eqn:E2; [rewrite app_nil_r; exact Hfl|].
   apply (fine_app_link (tl :: rl) prev nil_tok y r2); [discriminate|exact Hfl| |].
-  - apply ge1_link. destruct (assign l) as [|ta ra]; cbn [app] in E2.
-    + destruct (comment l) as [|tc rc]; [discriminate|]. inversion E2; subst. exact Hgc.
-    + inversion E2; subst. exact Hg.
+  - apply cell_link. destruct (assign l) as [|ta ra]; cbn [app] in E2.
+    + destruct (comment l) as [|tc rc]; [discriminate|].
+      assert (Htc : ty tc = TokenComment) by (destruct rc; [exact Hc|contradiction]).
+      inversion E2; subst. split; [exact Hgc|]. right. exact Htc.
+    + inversion E2; subst. split; [exact Hg|]. left. exact Ha.
   - apply Hac.
 Qed.
 
@@ -1948,9 +2690,10 @@ Proof.
       split.
       * destruct (flatten ls) as [|y r2] eqn:Ef; [rewrite app_nil_r; exact Hfl|].
         apply (fine_app_link (line_toks l) prev nil_tok y r2 Hne' Hfl); [|exact Hfr].
-        split; [exact Hfn|]. intros _. exact Hnl.
+        split; [exact Hfn|]. left. exact Hnl.
       * destruct (line_toks l) as [|t r]; [contradiction|]. cbn [app]. exact Hnn.
 Qed.
+
 
 (* ---- first bytes of the tokens of the main scanner --------------------------------------- *)
 
@@ -1963,7 +2706,7 @@ Definition mtypes : list Z :=
    TokenFatArrow; TokenOBrack; TokenCBrack; TokenOParen; TokenCParen; TokenDot; TokenComma;
    TokenStar; TokenSlash; TokenPercent; TokenPlus; TokenMinus; TokenEqual; TokenLessThan;
    TokenGreaterThan; TokenBang; TokenQuestion; TokenColon; TokenOBrace; TokenCBrace;
-   TokenTemplateSeqEnd].
+   TokenTemplateSeqEnd; TokenOQuote].
 
 (* possible first bytes, by type (identifiers: everything outside [nonident]) *)
 Definition fbl (t : Z) : list Z :=
@@ -1976,25 +2719,24 @@ Definition fbl (t : Z) : list Z :=
   else if t =? TokenDoubleColon then [58] else if t =? TokenEllipsis then [46]
   else if t =? TokenFatArrow then [61]
   else if t =? TokenOBrace then [123] else if t =? TokenCBrace then [125]
-  else if t =? TokenTemplateSeqEnd then [126]
+  else if t =? TokenTemplateSeqEnd then [125; 126]
+  else if t =? TokenOQuote then [34]
   else if existsb (Z.eqb t) self_chars then [t]
   else [].
 
 Definition first_ok (t : Z) (c : Z) : Prop :=
   if t =? TokenIdent then existsb (Z.eqb c) nonident = false else In c (fbl t).
 
-Lemma is_prefix_hd p0 p c y : is_prefix (p0 :: p) (c :: y) = true -> c = p0.
-Proof. simpl. intro H. apply andb_true_iff in H. destruct H as [H _]. apply Z.eqb_eq in H. auto. Qed.
 
 Lemma firstn_hd {A} n (c : A) y : firstn (Nat.max 1 n) (c :: y) = c :: firstn (Nat.max 1 n - 1) y.
 Proof. destruct (Nat.max 1 n) eqn:E; [lia|]. simpl. rewrite Nat.sub_0_r. reflexivity. Qed.
 
 Lemma main_shape (st : hstate) r s lk n ty st' :
-  main_inv st -> In r rules_main -> r_match r s = Some (lk, n) -> (0 < lk)%nat ->
-  r_act r st (firstn (Nat.max 1 n) s) = Some (EOne ty, st') -> simple_ty ty = true ->
+  In r rules_main -> r_match r s = Some (lk, n) -> (0 < lk)%nat ->
+  r_act r st (firstn (Nat.max 1 n) s) = Some (EOne ty, st') -> nohd_ty ty = true ->
   In ty mtypes /\ exists c b', firstn (Nat.max 1 n) s = c :: b' /\ first_ok ty c.
 Proof.
-  intros [Hc Hr] Hin Hm Hlk Ha Hs.
+  intros Hin Hm Hlk Ha Hs.
   destruct s as [|c y].
   { exfalso. unfold rules_main, rule_spaces in Hin; cbn [In] in Hin.
     repeat (destruct Hin as [<-|Hin]; [cbn [r_match R] in Hm; try discriminate Hm|]); try destruct Hin.
@@ -2045,15 +2787,19 @@ Proof.
     cbn [r_match R] in Hm. apply m_lit_inv in Hm. destruct Hm as (Hp & _). apply is_prefix_hd in Hp. subst c.
     apply (X TokenOBrace eq_refl); vm_compute; tauto. }
   destruct Hin as [<-|Hin].
-  { cbn [r_act R] in Ha. unfold a_close, ret_matches in Ha. rewrite Hr in Ha. inversion Ha; subst ty.
-    cbn [r_match R] in Hm. apply m_lit_inv in Hm. destruct Hm as (Hp & _). apply is_prefix_hd in Hp. subst c.
-    apply (X TokenCBrace eq_refl); vm_compute; tauto. }
+  { cbn [r_match R] in Hm. apply m_lit_inv in Hm. destruct Hm as (Hp & _). apply is_prefix_hd in Hp. subst c.
+    cbn [r_act R] in Ha. unfold a_close in Ha. destruct (ret_matches st).
+    - destruct (fret _); [|discriminate]. inversion Ha; subst ty. apply (X TokenTemplateSeqEnd eq_refl); vm_compute; tauto.
+    - inversion Ha; subst ty. apply (X TokenCBrace eq_refl); vm_compute; tauto. }
   destruct Hin as [<-|Hin].
-  { cbn [r_act R] in Ha. unfold a_close, ret_matches in Ha. rewrite Hr in Ha. inversion Ha; subst ty.
-    cbn [r_match R] in Hm. apply m_lit_inv in Hm. destruct Hm as (Hp & _). apply is_prefix_hd in Hp. subst c.
-    apply (X TokenTemplateSeqEnd eq_refl); vm_compute; tauto. }
+  { cbn [r_match R] in Hm. apply m_lit_inv in Hm. destruct Hm as (Hp & _). apply is_prefix_hd in Hp. subst c.
+    cbn [r_act R] in Ha. unfold a_close in Ha. destruct (ret_matches st).
+    - destruct (fret _); [|discriminate]. inversion Ha; subst ty. apply (X TokenTemplateSeqEnd eq_refl); vm_compute; tauto.
+    - inversion Ha; subst ty. apply (X TokenTemplateSeqEnd eq_refl); vm_compute; tauto. }
   destruct Hin as [<-|Hin].
-  { exfalso. cbn [r_act R] in Ha. unfold a_begin_string in Ha. inversion Ha; subst ty. vm_compute in Hs. discriminate. }
+  { cbn [r_act R] in Ha. unfold a_begin_string in Ha. inversion Ha; subst ty.
+    cbn [r_match R] in Hm. apply m_lit_inv in Hm. destruct Hm as (Hp & _). apply is_prefix_hd in Hp. subst c.
+    apply (X TokenOQuote eq_refl); vm_compute; tauto. }
   destruct Hin as [<-|Hin].
   { exfalso. cbn [r_act R] in Ha. apply a_begin_heredoc_emit in Ha. inversion Ha; subst ty. vm_compute in Hs. discriminate. }
   destruct Hin as [<-|Hin].
@@ -2062,6 +2808,7 @@ Proof.
   { exfalso. cbn [r_act R] in Ha. unfold a_tok in Ha. inversion Ha; subst ty. vm_compute in Hs. discriminate. }
   destruct Hin.
 Qed.
+
 
 (* ---- the space_after table over the types of the fragment (finite exploration) ----------- *)
 
@@ -2077,10 +2824,14 @@ Definition mk0 (t : Z) (bs : list Z) : tok := mkTok t bs 0 0.
 
 (* can the formatter put no space between a token of type x and a following one
    of type y (any token before, any bytes)? *)
+(* all token types of the fragment (and Nil for "no token before") *)
+Definition tltypes : list Z := [TokenQuotedLit; TokenCQuote; TokenTemplateInterp; TokenTemplateControl].
+Definition atypes : list Z := TokenNil :: mtypes ++ tltypes.
+
 Definition zero_possible (x y : Z) : bool :=
   existsb (fun bt => existsb (fun sb => existsb (fun ab =>
      negb (space_after (mk0 x sb) (mk0 bt []) (mk0 y ab))) [[122]; [101; 53]]) [[120]; [105; 110]])
-    (TokenNil :: mtypes).
+    atypes.
 
 Lemma is_in_kw_canon s : is_in_kw (mk0 (ty s) (if is_in_kw s then [105; 110] else [120])) = is_in_kw s.
 Proof.
@@ -2100,7 +2851,7 @@ Proof.
 Qed.
 
 Lemma zero_possible_of x bf y :
-  In (ty bf) (TokenNil :: mtypes) -> space_after x bf y = false -> zero_possible (ty x) (ty y) = true.
+  In (ty bf) atypes -> space_after x bf y = false -> zero_possible (ty x) (ty y) = true.
 Proof.
   intros Hb H. unfold zero_possible. apply existsb_exists. exists (ty bf). split; [exact Hb|].
   apply existsb_exists. exists (if is_in_kw x then [105; 110] else [120]).
@@ -2114,17 +2865,20 @@ Qed.
 
 Definition all_fb (P : Z -> bool) (t : Z) : bool := forallb P (fbl t).
 
+(* first bytes of the one-byte tokens of a type *)
+Definition fbl1 (t : Z) : list Z := if t =? TokenTemplateSeqEnd then [125] else fbl t.
+
 Definition pair_ok (x y : Z) : bool :=
   if y =? TokenIdent then negb (x =? TokenNumberLit) && negb (x =? TokenIdent)
   else
     ((negb (x =? TokenNumberLit)) || is_dots y || all_fb (fun c => negb (num_byte c)) y) &&
     ((negb (x =? TokenIdent)) || all_fb (fun c => existsb (Z.eqb c) id_stoppers) y) &&
-    (forallb (fun cx => all_fb (fun c => negb (existsb (Z.eqb c) (forbidden_next cx))) y) (fbl x)).
+    (forallb (fun cx => all_fb (fun c => negb (existsb (Z.eqb c) (forbidden_next cx))) y) (fbl1 x)).
 
 Definition hazard_pair (x y : Z) : bool :=
   ((x =? TokenBang) && (existsb (Z.eqb 61) (fbl y))) || (is_dots x && is_dots y).
 
-(* finite exploration: all 33 x 33 pairs of types, all 34 types before, both
+(* finite exploration: all 34 x 34 pairs of main-scanner types, all 39 types before, both
    byte variants of subject and after *)
 Lemma pair_table :
   forallb (fun x => forallb (fun y =>
@@ -2153,6 +2907,34 @@ Lemma ellipsis_table :
                           (is_dots z || (negb (z =? TokenIdent) && negb (z =? TokenNumberLit)))) mtypes = true.
 Proof. vm_compute. reflexivity. Qed.
 
+(* only the closing "~}" starts with '~' *)
+Lemma tilde_table :
+  forallb (fun t => implb (existsb (Z.eqb 126) (fbl t)) (t =? TokenTemplateSeqEnd)) mtypes = true.
+Proof. vm_compute. reflexivity. Qed.
+
+(* finite exploration: after an opening quote, a literal or a closing "}" of a template
+   sequence, a token of the string scanner never gets a space (any token before, any bytes) *)
+Definition tl_before : list Z := [TokenOQuote; TokenQuotedLit; TokenTemplateSeqEnd].
+Lemma tl_table :
+  forallb (fun x => forallb (fun y => forallb (fun bt => forallb (fun sb => forallb (fun ab =>
+     negb (space_after (mk0 x sb) (mk0 bt []) (mk0 y ab))) [[122]; [101; 53]]) [[120]; [105; 110]])
+    atypes) tltypes) tl_before = true.
+Proof. vm_compute. reflexivity. Qed.
+
+Lemma tl_space x bf y :
+  In (ty x) tl_before -> In (ty y) tltypes -> In (ty bf) atypes -> space_after x bf y = false.
+Proof.
+  intros Hx Hy Hb. pose proof tl_table as T. rewrite forallb_forall in T. specialize (T _ Hx).
+  rewrite forallb_forall in T. specialize (T _ Hy). rewrite forallb_forall in T. specialize (T _ Hb).
+  rewrite forallb_forall in T.
+  specialize (T (if is_in_kw x then [105; 110] else [120]) ltac:(destruct (is_in_kw x); cbn; tauto)).
+  rewrite forallb_forall in T.
+  specialize (T (if ident_continues_number y then [101; 53] else [122]) ltac:(destruct (ident_continues_number y); cbn; tauto)).
+  apply negb_true_iff in T. rewrite <- T. apply space_after_ext; cbn [ty mk0]; try reflexivity.
+  - symmetry. apply is_in_kw_canon.
+  - symmetry. apply icn_canon.
+Qed.
+
 Lemma forbidden_nonident : forall cx k, In k (forbidden_next cx) -> In k nonident.
 Proof.
   intros cx k. unfold forbidden_next.
@@ -2169,11 +2951,13 @@ Proof.
 Qed.
 
 
+
 (* ---- shapes of the tokens of a main-scanner trace -------------------------------------------- *)
 
 Definition tok_shape (t : tok) : Prop :=
   In (ty t) mtypes /\ (exists c b', bytes t = c :: b' /\ first_ok (ty t) c) /\
-  (ty t = TokenDot -> bytes t = [46]) /\ (ty t = TokenEllipsis -> bytes t = [46; 46; 46]).
+  (ty t = TokenDot -> bytes t = [46]) /\ (ty t = TokenEllipsis -> bytes t = [46; 46; 46]) /\
+  (ty t = TokenTemplateSeqEnd -> forall c, bytes t = [c] -> c = 125).
 
 Lemma is_prefix_firstn p : forall s, is_prefix p s = true -> firstn (length p) s = p.
 Proof.
@@ -2183,12 +2967,12 @@ Proof.
 Qed.
 
 Lemma main_dots (st : hstate) r s lk n ty st' :
-  main_inv st -> In r rules_main -> r_match r s = Some (lk, n) ->
+  In r rules_main -> r_match r s = Some (lk, n) ->
   r_act r st (firstn (Nat.max 1 n) s) = Some (EOne ty, st') ->
   (ty = TokenDot -> firstn (Nat.max 1 n) s = [46]) /\
   (ty = TokenEllipsis -> firstn (Nat.max 1 n) s = [46; 46; 46]).
 Proof.
-  intros [Hc Hr] Hin Hm Ha.
+  intros Hin Hm Ha.
   unfold rules_main, rule_spaces in Hin; cbn [In] in Hin.
   repeat (destruct Hin as [<-|Hin];
     [ cbn [r_act R] in Ha;
@@ -2201,27 +2985,69 @@ Proof.
           unfold a_self in Ha; simpl in Ha; inversion Ha; subst ty; split; intro Hx;
           [subst c0; reflexivity|subst c0; vm_compute in Hself; discriminate Hself]
         | unfold a_open_brace in Ha; inversion Ha; subst ty; split; intro Hx; discriminate Hx
-        | unfold a_close, ret_matches in Ha; rewrite Hr in Ha; inversion Ha; subst ty; split; intro Hx; discriminate Hx
+        | unfold a_close in Ha; destruct (ret_matches st); [destruct (fret _); [|discriminate]|];
+          inversion Ha; subst ty; split; intro Hx; discriminate Hx
         | unfold a_begin_string in Ha; inversion Ha; subst ty; split; intro Hx; discriminate Hx
         | apply a_begin_heredoc_emit in Ha; inversion Ha; subst ty; split; intro Hx; discriminate Hx ]
     |]).
   destruct Hin.
 Qed.
 
-Lemma shapes_trace g : forall ps st tg,
-  trace_ok st ps tg -> main_inv st -> main_trace ps -> Forall tok_shape (map (wt_step g) ps).
+(* "~}" is two bytes: a one-byte closer is "}" *)
+Lemma main_seqend (st : hstate) r s lk n ty st' :
+  In r rules_main -> r_match r s = Some (lk, n) ->
+  r_act r st (firstn (Nat.max 1 n) s) = Some (EOne ty, st') ->
+  ty = TokenTemplateSeqEnd -> forall c, firstn (Nat.max 1 n) s = [c] -> c = 125.
 Proof.
-  induction ps as [|p r IH]; intros st tg Ht Hi Hm; [constructor|].
+  intros Hin Hm Ha.
+  unfold rules_main, rule_spaces in Hin; cbn [In] in Hin.
+  repeat (destruct Hin as [<-|Hin];
+    [ cbn [r_act R] in Ha;
+      first
+        [ unfold a_skip in Ha; discriminate Ha
+        | unfold a_tok in Ha; inversion Ha; subst ty; intro Hx; discriminate Hx
+        | cbn [r_match R] in Hm; apply m_self_inv in Hm; destruct Hm as (-> & -> & c0 & y0 & -> & Hself);
+          unfold a_self in Ha; simpl in Ha; inversion Ha; subst ty; intro Hx; subst c0;
+          vm_compute in Hself; discriminate Hself
+        | unfold a_open_brace in Ha; inversion Ha; subst ty; intro Hx; discriminate Hx
+        | cbn [r_match R] in Hm; apply m_lit_inv in Hm; destruct Hm as (Hp & _ & ->);
+          intros _ c Hc; apply is_prefix_firstn in Hp; cbn [length Nat.max] in *; rewrite Hp in Hc;
+          inversion Hc; reflexivity
+        | cbn [r_match R] in Hm; apply m_lit_inv in Hm; destruct Hm as (Hp & _ & ->);
+          intros _ c Hc; apply is_prefix_firstn in Hp; cbn [length Nat.max] in *; rewrite Hp in Hc;
+          discriminate Hc
+        | unfold a_begin_string in Ha; inversion Ha; subst ty; intro Hx; discriminate Hx
+        | apply a_begin_heredoc_emit in Ha; inversion Ha; subst ty; intro Hx; discriminate Hx ]
+    |]).
+  destruct Hin.
+Qed.
+
+(* tokens of the main scanner have a shape; those of the string scanner are only typed *)
+Definition gshape (t : tok) : Prop :=
+  if tl_ty (ty t) then In (ty t) tltypes else tok_shape t.
+
+Lemma tl_in t : tl_ty t = true -> In t tltypes.
+Proof.
+  unfold tl_ty, tltypes. intro H. repeat (apply orb_true_iff in H; destruct H as [H|H]);
+    apply Z.eqb_eq in H; subst; cbn [In]; tauto.
+Qed.
+
+Lemma shapes_trace g : forall ps st tg,
+  trace_ok st ps tg -> gen_trace st ps -> Forall gshape (map (wt_step g) ps).
+Proof.
+  induction ps as [|p r IH]; intros st tg Ht Hg; [constructor|].
   cbn [trace_ok] in Ht. destruct Ht as (Hbl & Hgm & Hne & Hnb & (lk & Hp) & Hb & Ha & He & Htr).
-  cbn [main_trace] in Hm. destruct Hm as (Ee & Hs & Heof & Hi' & Hm).
+  cbn [gen_trace] in Hg. destruct Hg as (Hi & _ & Ee & Hs & Heof & Htl & _ & _ & Hg').
   cbn [map]. constructor; [|eapply IH; eassumption].
-  pose proof Hi as [Hc Hr]. rewrite Hc in Hp. change (hcl_rules MMain) with rules_main in Hp.
+  unfold gshape, wt_step. cbn [ty bytes]. destruct (tl_ty (ty_of p)) eqn:Et; [apply tl_in; exact Et|].
+  rewrite Htl in Hp. change (hcl_rules MMain) with rules_main in Hp.
   pose proof Hp as Hp2. apply pick_spec in Hp2. destruct Hp2 as [Hx|(Hin & Hmt & Hlk)]; [discriminate|].
   rewrite Ee in Ha. rewrite Hb in Ha.
-  destruct (main_shape st _ _ _ _ _ _ Hi Hin Hmt Hlk Ha Hs) as (Hty & c & b' & Eb & Hf).
-  destruct (main_dots st _ _ _ _ _ _ Hi Hin Hmt Ha) as (Hd & Hel).
+  destruct (main_shape st _ _ _ _ _ _ Hin Hmt Hlk Ha Hs) as (Hty & c & b' & Eb & Hf).
+  destruct (main_dots st _ _ _ _ _ _ Hin Hmt Ha) as (Hd & Hel).
+  pose proof (main_seqend st _ _ _ _ _ _ Hin Hmt Ha) as Hse.
   rewrite <- Hb in *.
-  unfold tok_shape, wt_step. cbn [ty bytes]. split; [exact Hty|]. split; [exists c, b'; auto|]. split; assumption.
+  unfold tok_shape. cbn [ty bytes]. split; [exact Hty|]. split; [exists c, b'; auto|]. split; [assumption|]. split; assumption.
 Qed.
 
 Lemma tok_shape_sk a b : sk_eq a b -> tok_shape a -> tok_shape b.
@@ -2364,7 +3190,7 @@ Lemma pair_tail x y w :
   (ty x = TokenNumberLit -> is_dots (ty y) = true -> dots_stop w = true) ->
   tail_okb (bytes x) (bytes y ++ w) = true.
 Proof.
-  intros (Hxt & (cx & bx & Ebx & Hfx) & _) (Hyt & (cy & by' & Eby & Hfy) & Hyd & Hye) Hp Hdots.
+  intros (Hxt & (cx & bx & Ebx & Hfx) & _ & _ & Hxse) (Hyt & (cy & by' & Eby & Hfy) & Hyd & Hye & _) Hp Hdots.
   rewrite Ebx, Eby. cbn [app]. unfold tail_okb.
   unfold pair_ok in Hp.
   apply andb_true_iff. split; [apply andb_true_iff; split|].
@@ -2407,7 +3233,10 @@ Proof.
       assert (X : existsb (Z.eqb cy) nonident = true) by (apply existsb_exists; exists cy; split; [exact Hk|apply Z.eqb_refl]).
       congruence.
     + apply andb_true_iff in Hp. destruct Hp as [_ Hp].
-      rewrite forallb_forall in Hp. specialize (Hp cx Hfx). unfold all_fb in Hp. rewrite forallb_forall in Hp.
+      assert (Hfx1 : In cx (fbl1 (ty x))).
+      { unfold fbl1. destruct (ty x =? TokenTemplateSeqEnd) eqn:Ese; [|exact Hfx].
+        apply Z.eqb_eq in Ese. rewrite (Hxse Ese cx Ebx). left. reflexivity. }
+      rewrite forallb_forall in Hp. specialize (Hp cx Hfx1). unfold all_fb in Hp. rewrite forallb_forall in Hp.
       unfold first_ok in Hfy. rewrite Ei in Hfy. specialize (Hp cy Hfy). apply negb_true_iff in Hp. exact Hp.
 Qed.
 
@@ -2471,6 +3300,7 @@ Proof.
   split; [apply Z.eqb_neq; exact E3|reflexivity].
 Qed.
 
+
 (* ---- the layout of format's output ---------------------------------------------------------- *)
 
 Lemma tok_is_newline_dots y : is_dots (ty y) = true -> tok_is_newline y = false.
@@ -2479,26 +3309,84 @@ Proof.
   destruct H as [H|H]; apply Z.eqb_eq in H; rewrite H; reflexivity.
 Qed.
 
-Lemma shape_ty_in x : tok_shape x -> In (ty x) (TokenNil :: mtypes).
-Proof. intros (H & _). right. exact H. Qed.
+Lemma shape_ty_in x : gshape x -> In (ty x) atypes.
+Proof.
+  unfold gshape, atypes. destruct (tl_ty (ty x)).
+  - intro H. right. apply in_or_app. right. exact H.
+  - intros (H & _). right. apply in_or_app. left. exact H.
+Qed.
+
+(* a token of the string scanner comes directly after an opening quote, a literal, or
+   the "}" that closes a template sequence *)
+Fixpoint tlchainT (tx : Z) (l : list Z) : Prop :=
+  match l with
+  | [] => True
+  | ty' :: l' => (tl_ty ty' = true -> In tx tl_before) /\ tlchainT ty' l'
+  end.
+Definition tlchain (x : tok) (f : list tok) : Prop := tlchainT (ty x) (map ty f).
+
+Lemma tl_before_not_newline x : In (ty x) tl_before -> tok_is_newline x = false.
+Proof.
+  unfold tl_before, tok_is_newline, is. cbn [In]. intros [H|[H|[H|[]]]]; rewrite <- H; reflexivity.
+Qed.
+
+Lemma tl_not_cellfirst y : tl_ty (ty y) = true -> ~ cellfirst y.
+Proof.
+  intros Ht [_ [H|H]]; rewrite H in Ht; discriminate.
+Qed.
+
+Lemma sw126_spaces n w : 0 <= n -> (n = 0 -> starts_with 126 w = false) -> starts_with 126 (spaces n ++ w) = false.
+Proof.
+  intros Hn H. destruct (Z.eq_dec n 0) as [->|Hne]; [rewrite spaces_zero; apply H; reflexivity|].
+  destruct (spaces_pos n ltac:(lia)) as (y & ->). reflexivity.
+Qed.
+
+Lemma opener_okb_of b w : starts_with 126 w = false -> opener_okb b w = true.
+Proof.
+  intro H. unfold opener_okb. destruct b as [|a [|c1 [|c2 b']]]; try reflexivity.
+  rewrite H, andb_false_r. reflexivity.
+Qed.
+
+Lemma quote_close_tail x w : tok_shape x -> (ty x = TokenOQuote \/ ty x = TokenTemplateSeqEnd) ->
+  tail_okb (bytes x) w = true.
+Proof.
+  intros (Hxt & (cx & bx & Ebx & Hfx) & _ & _ & Hse) Hty. rewrite Ebx.
+  assert (Hn : ty x <> TokenIdent /\ ty x <> TokenNumberLit) by (destruct Hty as [-> | ->]; split; discriminate).
+  destruct Hn as [Hni Hnn].
+  apply tail_okb_plain.
+  - apply (first_not_digit _ _ Hxt Hfx Hnn).
+  - apply (first_not_idfirst _ _ Hxt Hfx Hni).
+  - intros ->. destruct Hty as [Hty|Hty].
+    + unfold first_ok in Hfx. rewrite Hty in Hfx. cbn in Hfx. destruct Hfx as [<-|[]].
+      vm_compute forbidden_next. destruct w; reflexivity.
+    + rewrite (Hse Hty cx Ebx). vm_compute forbidden_next. destruct w; reflexivity.
+Qed.
 
 (* what follows "<number>." or "<number>..." does not continue the number *)
 Lemma after_number_dots e x y f :
   bytes e = [] -> 0 <= sp e ->
   tok_shape x -> ty x = TokenNumberLit -> tok_shape y -> is_dots (ty y) = true ->
-  fine x (y :: f) -> Forall tok_shape f -> hz (map tyb (x :: y :: f)) = true ->
+  fine x (y :: f) -> Forall gshape f -> tlchain y f -> hz (map tyb (x :: y :: f)) = true ->
   dots_stop (write (f ++ [e])) = true.
 Proof.
-  intros He Hspe Hsx Hx Hsy Hd Hf Hsf Hz.
+  intros He Hspe Hsx Hx Hsy Hd Hf Hsf Htc Hz.
   destruct f as [|z f'].
   { cbn [app]. rewrite write_cons, He. unfold write. cbn [map concat]. rewrite !app_nil_r.
     rewrite <- (app_nil_r (spaces (sp e))). apply dots_stop_spaces; [exact Hspe|reflexivity]. }
-  cbn [fine] in Hf. destruct Hf as [(Hnn & Hp) _].
-  cbn [app]. rewrite write_cons. apply dots_stop_spaces; [exact Hnn|]. intro H0. specialize (Hp H0).
-  inversion Hsf as [|? ? Hsz _]; subst.
+  cbn [fine] in Hf. destruct Hf as [Hp _]. pose proof Hp as [Hnn _].
+  cbn [app]. rewrite write_cons. apply dots_stop_spaces; [exact Hnn|]. intro H0.
+  pose proof (pairP_zero _ _ _ Hp H0) as Hp0.
+  inversion Hsf as [|? ? Hgz _]; subst.
+  (* z is a token of the main scanner *)
+  assert (Hsz : tok_shape z).
+  { unfold gshape in Hgz. destruct (tl_ty (ty z)) eqn:Etz; [|exact Hgz]. exfalso.
+    unfold tlchain in Htc. cbn [map tlchainT] in Htc. destruct Htc as [Htc _]. specialize (Htc Etz).
+    unfold is_dots in Hd. apply orb_true_iff in Hd. unfold tl_before in Htc. cbn [In] in Htc.
+    destruct Hd as [Hd|Hd]; apply Z.eqb_eq in Hd; rewrite Hd in Htc;
+      destruct Htc as [H|[H|[H|[]]]]; discriminate H. }
   assert (Hsa : space_after y x z = false).
-  { destruct Hp as [Hp|[Hp|[_ Hj]]]; [|exact Hp|].
-    - rewrite (tok_is_newline_dots y Hd) in Hp. discriminate.
+  { destruct Hp0 as [Hq|[Hq|[_ Hj]]]; [|exact Hq|].
+    - rewrite (tok_is_newline_dots y Hd) in Hq. discriminate.
     - exfalso. unfold just in Hj. unfold is_dots in Hd. apply orb_true_iff in Hd.
       destruct Hj as [Hj|[Hj|[Hj|Hj]]].
       + unfold tok_is_newline, is in Hj. rewrite Hx in Hj. discriminate.
@@ -2509,10 +3397,11 @@ Proof.
   pose proof (hz_triple _ _ _ _ Hz) as HN. pose proof (hz_pair _ _ _ (hz_tail _ _ Hz)) as [_ HD].
   cbn [tyb fst snd] in HN, HD. rewrite Hd in HD. cbn [andb] in HD.
   destruct Hsz as (Hzt & (cz & bz & Ebz & Hfz) & _). rewrite Ebz. cbn [app].
+  assert (Hxin : In (ty x) atypes) by (apply shape_ty_in; unfold gshape; rewrite Hx; exact Hsx).
   assert (Hzn : ty z <> TokenNumberLit /\ (ty z = TokenIdent -> ident_continues_number z = false /\ ty y = TokenDot)).
   { unfold is_dots in Hd. apply orb_true_iff in Hd. destruct Hd as [Hd|Hd]; apply Z.eqb_eq in Hd.
     - destruct (dot_after_number y x z Hd Hx Hsa) as [H1 H2]. split; [exact H1|]. intros _. split; assumption.
-    - pose proof (zero_possible_of y x z (shape_ty_in x Hsx) Hsa) as Hzp. rewrite Hd in Hzp.
+    - pose proof (zero_possible_of y x z Hxin Hsa) as Hzp. rewrite Hd in Hzp.
       pose proof ellipsis_table as T. rewrite forallb_forall in T. specialize (T (ty z) Hzt).
       rewrite Hzp, HD in T. cbn in T. apply andb_true_iff in T. destruct T as [T1 T2].
       apply negb_true_iff in T1, T2. apply Z.eqb_neq in T1, T2. split; [exact T2|]. intro. contradiction. }
@@ -2530,31 +3419,71 @@ Proof.
     apply dots_stop_plain. apply H4; auto. apply Z.eqb_neq. exact Ei.
 Qed.
 
-Lemma layout_flat e : bytes e = [] -> 0 <= sp e -> forall body prev,
-  fine prev body -> Forall tok_shape body -> In (ty prev) (TokenNil :: mtypes) ->
+Lemma layout_flat e : bytes e = [] -> ty e = TokenEOF -> 0 <= sp e -> forall body prev,
+  fine prev body -> Forall gshape body -> In (ty prev) atypes ->
   hz (map tyb body) = true ->
-  (match body with x :: _ => 0 <= sp x | [] => True end) ->
+  (match body with
+   | x :: f => 0 <= sp x /\ (tl_ty (ty x) = true -> sp x = 0) /\ tlchain x f
+   | [] => True end) ->
   layout_okb (body ++ [e]) = true.
 Proof.
-  intros He Hspe. induction body as [|x f IH]; intros prev Hf Hs Hprev Hz H0.
-  - cbn [app layout_okb]. rewrite He. cbn [tail_okb]. rewrite !andb_true_r. apply Z.leb_le. exact Hspe.
-  - inversion Hs as [|? ? Hsx Hsf]; subst.
+  intros He Hte Hspe. induction body as [|x f IH]; intros prev Hf Hs Hprev Hz H0.
+  - cbn [app layout_okb]. rewrite Hte, He. cbn [tl_ty tail_okb]. rewrite !andb_true_r. apply Z.leb_le. exact Hspe.
+  - inversion Hs as [|? ? Hsx Hsf]; subst. destruct H0 as (Hx0 & Hxtl & Hchain).
     cbn [app layout_okb]. apply andb_true_iff. split; [apply andb_true_iff; split|].
-    + apply Z.leb_le. exact H0.
-    + destruct f as [|y f'].
-      * cbn [app]. rewrite write_cons, He. unfold write. cbn [map concat]. rewrite !app_nil_r.
-        rewrite <- (app_nil_r (spaces (sp e))). apply tail_okb_spaces; [exact Hspe|]. intros _. apply tail_okb_nil.
-      * cbn [fine] in Hf. destruct Hf as [(Hnn & Hp) Hf'].
-        inversion Hsf as [|? ? Hsy Hsf']; subst.
-        cbn [app]. rewrite write_cons. apply tail_okb_spaces; [exact Hnn|]. intro Hy0. specialize (Hp Hy0).
-        destruct Hp as [Hp|Hp].
+    + apply Z.leb_le. exact Hx0.
+    + destruct (tl_ty (ty x)) eqn:Etx.
+      * (* a token of the string scanner *)
+        rewrite (Hxtl eq_refl). cbn [Z.eqb andb].
+        destruct (is_tmpl_open (ty x)) eqn:Eo; [|reflexivity]. cbn [negb orb].
+        apply opener_okb_of.
+        destruct f as [|y f'].
+        { cbn [app]. rewrite write_cons, He. unfold write. cbn [map concat]. rewrite !app_nil_r.
+          rewrite <- (app_nil_r (spaces (sp e))). apply sw126_spaces; [exact Hspe|reflexivity]. }
+        cbn [fine] in Hf. destruct Hf as [Hp _]. pose proof Hp as [Hnn _].
+        inversion Hsf as [|? ? Hgy _]; subst.
+        cbn [app]. rewrite write_cons. apply sw126_spaces; [exact Hnn|]. intros _.
+        unfold tlchain in Hchain. cbn [map tlchainT] in Hchain. destruct Hchain as [Hc1 _].
+        unfold gshape in Hgy. destruct (tl_ty (ty y)) eqn:Ety.
+        { exfalso. specialize (Hc1 eq_refl). unfold tl_before in Hc1. cbn [In] in Hc1.
+          unfold is_tmpl_open in Eo. apply orb_true_iff in Eo.
+          destruct Eo as [Eo|Eo]; apply Z.eqb_eq in Eo; rewrite Eo in Hc1;
+            destruct Hc1 as [H|[H|[H|[]]]]; discriminate H. }
+        destruct Hgy as (Hyt & (cy & by' & Eby & Hfy) & _). rewrite Eby. cbn [app starts_with].
+        destruct (cy =? 126) eqn:E126; [|reflexivity]. exfalso. apply Z.eqb_eq in E126. subst cy.
+        cbn [map] in Hz. cbn [hz] in Hz.
+        repeat (apply andb_true_iff in Hz; destruct Hz as [Hz ?]).
+        match goal with H : negb (is_tmpl_open _ && _) = true |- _ => rename H into HT end.
+        cbn [tyb fst snd] in HT. rewrite Eo in HT. cbn [andb] in HT. apply negb_true_iff in HT.
+        unfold first_ok in Hfy. destruct (ty y =? TokenIdent) eqn:Ei.
+        -- destruct (nonident_facts 126 Hfy) as (_ & _ & _ & Fk). specialize (Fk 126 ltac:(cbn [In]; tauto)). discriminate Fk.
+        -- pose proof tilde_table as T. rewrite forallb_forall in T. specialize (T (ty y) Hyt).
+           assert (E : existsb (Z.eqb 126) (fbl (ty y)) = true) by (apply existsb_exists; exists 126; split; [exact Hfy|reflexivity]).
+           rewrite E in T. cbn [implb] in T. congruence.
+      * (* a token of the main scanner *)
+        unfold gshape in Hsx. rewrite Etx in Hsx.
+        destruct f as [|y f'].
+        { cbn [app]. rewrite write_cons, He. unfold write. cbn [map concat]. rewrite !app_nil_r.
+          rewrite <- (app_nil_r (spaces (sp e))). apply tail_okb_spaces; [exact Hspe|]. intros _. apply tail_okb_nil. }
+        cbn [fine] in Hf. destruct Hf as [Hp Hf']. pose proof Hp as [Hnn _].
+        inversion Hsf as [|? ? Hgy Hsf']; subst.
+        cbn [app]. rewrite write_cons. apply tail_okb_spaces; [exact Hnn|]. intro Hy0.
+        pose proof (pairP_zero _ _ _ Hp Hy0) as Hp0.
+        unfold tlchain in Hchain. cbn [map tlchainT] in Hchain. destruct Hchain as [Hc1 Hc2].
+        unfold gshape in Hgy. destruct (tl_ty (ty y)) eqn:Ety.
+        { (* x opens the template or closes a sequence inside it *)
+          apply quote_close_tail; [exact Hsx|]. specialize (Hc1 eq_refl). unfold tl_before in Hc1. cbn [In] in Hc1.
+          destruct Hc1 as [H|[H|[H|[]]]]; [left; auto| |right; auto].
+          exfalso. rewrite <- H in Etx. discriminate Etx. }
+        destruct Hp0 as [Hq|Hq].
         { apply newline_tail; assumption. }
+        assert (Hxin : In (ty x) atypes) by (apply shape_ty_in; unfold gshape; rewrite Etx; exact Hsx).
         assert (Hzp : zero_possible (ty x) (ty y) = true).
-        { destruct Hp as [Hp|[Hp _]].
-          - eapply zero_possible_of; [exact Hprev|exact Hp].
-          - eapply (zero_possible_of x nil_tok y); [left; reflexivity|exact Hp]. }
+        { destruct Hq as [Hq|[Hq _]].
+          - eapply zero_possible_of; [exact Hprev|exact Hq].
+          - eapply (zero_possible_of x nil_tok y); [left; reflexivity|exact Hq]. }
         pose proof pair_table as T. rewrite forallb_forall in T.
-        destruct Hsx as (Hxt & Hx2). destruct Hsy as (Hyt & Hy2).
+        destruct Hsx as (Hxt & Hx2). destruct Hgy as (Hyt & Hy2).
         specialize (T (ty x) Hxt). rewrite forallb_forall in T. specialize (T (ty y) Hyt).
         rewrite Hzp in T. cbn [implb] in T.
         cbn [map] in Hz. pose proof (hz_pair _ _ _ Hz) as [HB HD]. cbn [tyb fst snd] in HB, HD.
@@ -2571,11 +3500,19 @@ Proof.
         apply pair_tail; [split; assumption|split; assumption|exact T|].
         intros Hxn Hyd. apply (after_number_dots e x y f' He Hspe); auto; try (split; assumption).
     + destruct f as [|y f'].
-      * cbn [app layout_okb]. rewrite He. cbn [tail_okb]. rewrite !andb_true_r. apply Z.leb_le. exact Hspe.
-      * cbn [fine] in Hf. destruct Hf as [(Hnn & _) Hf'].
+      * cbn [app layout_okb]. rewrite Hte, He. cbn [tl_ty tail_okb]. rewrite !andb_true_r. apply Z.leb_le. exact Hspe.
+      * cbn [fine] in Hf. destruct Hf as [Hp Hf']. pose proof Hp as [Hnn Hcase].
+        unfold tlchain in Hchain. cbn [map tlchainT] in Hchain. destruct Hchain as [Hc1 Hc2].
+        assert (Hxin : In (ty x) atypes) by (apply shape_ty_in; exact Hsx).
         apply (IH x); auto.
-        -- apply shape_ty_in. exact Hsx.
         -- cbn [map] in Hz |- *. eapply hz_tail. exact Hz.
+        -- split; [exact Hnn|]. split; [|exact Hc2].
+           intro Ety. specialize (Hc1 Ety).
+           destruct Hcase as [Hq|[Hq|(bf & Hbf & Hq)]].
+           ++ rewrite (tl_before_not_newline x Hc1) in Hq. discriminate.
+           ++ exfalso. exact (tl_not_cellfirst y Ety Hq).
+           ++ rewrite Hq. rewrite (tl_space x bf y Hc1 (tl_in _ Ety)); [reflexivity|].
+              destruct Hbf as [->|[-> _]]; [exact Hprev|left; reflexivity].
 Qed.
 
 Lemma hz_init : forall l a, hz (l ++ [a]) = true -> hz l = true.
@@ -2589,14 +3526,6 @@ Proof.
   rewrite andb_false_r. reflexivity.
 Qed.
 
-Lemma Forall_shape_sk : forall a b, map skel a = map skel b -> Forall tok_shape b -> Forall tok_shape a.
-Proof.
-  induction a as [|x a IH]; intros b H Hb; destruct b as [|y b]; try discriminate; [constructor|].
-  cbn [map] in H. inversion Hb; subst. constructor.
-  - eapply tok_shape_sk; [|eassumption]. unfold sk_eq. injection H as E1 E2 E3 _. unfold skel. congruence.
-  - eapply IH; [|eassumption]. injection H as _ _ _ Hr. exact Hr.
-Qed.
-
 Lemma tyb_of_skel : forall a b : list tok, map skel a = map skel b -> map tyb a = map tyb b.
 Proof.
   induction a as [|x a IH]; intros b H; destruct b as [|y b]; try discriminate; [reflexivity|].
@@ -2606,29 +3535,52 @@ Qed.
 Lemma tyb_wt g : forall ks o, map tyb (writer_tokens g o ks) = map rtyb ks.
 Proof. induction ks as [|k r IH]; intro o; [reflexivity|]. cbn [writer_tokens map]. rewrite IH. reflexivity. Qed.
 
-(* the formatter's output satisfies the layout condition: main-scanner tokens,
-   none of the hazard patterns *)
-Theorem layout_of_format g data ks :
-  lex_main data = Some ks -> simple ks = true -> hazard_free ks = true ->
+
+Lemma gshape_sk a b : sk_eq a b -> gshape a -> gshape b.
+Proof.
+  intros H. destruct (sk_eq_inv _ _ H) as (E1 & E2 & _). unfold gshape, tok_shape. rewrite E1, E2. auto.
+Qed.
+
+Lemma Forall_gshape_sk : forall a b, map skel a = map skel b -> Forall gshape b -> Forall gshape a.
+Proof.
+  induction a as [|x a IH]; intros b H Hb; destruct b as [|y b]; try discriminate; [constructor|].
+  cbn [map] in H. inversion Hb; subst. constructor.
+  - eapply gshape_sk; [|eassumption]. unfold sk_eq. injection H as E1 E2 E3 _. unfold skel. congruence.
+  - eapply IH; [|eassumption]. injection H as _ _ _ Hr. exact Hr.
+Qed.
+
+(* the chain property of a trace *)
+Lemma tlchain_trace : forall ps st p, gen_trace st (p :: ps) -> tlchainT (ty_of p) (map ty_of ps).
+Proof.
+  induction ps as [|p2 r IH]; intros st p Hg; [exact I|].
+  cbn [gen_trace] in Hg. destruct Hg as (_ & _ & _ & _ & _ & _ & _ & Hprev & Hg').
+  cbn [map tlchainT]. split; [|eapply IH; exact Hg'].
+  intro Et. cbn [gen_trace] in Hg'. destruct Hg' as (_ & _ & _ & _ & _ & Hm2 & _).
+  rewrite Et in Hm2. unfold tl_before. cbn [In]. destruct (Hprev Hm2) as [H|[H|H]]; rewrite H; tauto.
+Qed.
+
+(* the formatter's output satisfies the layout condition: sources without heredocs
+   and without hazard pattern *)
+Theorem layout_of_format_nohd g data ks :
+  lex_main data = Some ks -> noheredoc ks = true -> hazard_free ks = true ->
   layout_okb (format (writer_tokens g 0 ks)) = true.
 Proof.
-  intros Hlex Hsimple Hhz. unfold lex_main in Hlex.
+  intros Hlex Hfrag Hhz. unfold lex_main in Hlex.
   destruct (hcl_scan MMain data) as [its fin] eqn:Hscan. destruct fin; try discriminate.
   inversion Hlex; subst ks. clear Hlex.
   unfold hcl_scan, scan in Hscan. fold M0 in Hscan.
   assert (Hclean : forallb (fun k => clean_ty (k_ty k)) (tokens_of its) = true).
-  { unfold simple in Hsimple. rewrite forallb_forall in Hsimple |- *. intros k Hk.
-    specialize (Hsimple k Hk). apply simple_ty_inv in Hsimple. tauto. }
+  { unfold noheredoc in Hfrag. rewrite forallb_forall in Hfrag |- *. intros k Hk.
+    specialize (Hfrag k Hk). apply nohd_ty_inv in Hfrag. tauto. }
   destruct (run_trace _ _ _ _ _ Hscan Hclean) as (ps & tg & Hdata & Htr & Htk).
-  assert (Hi0 : main_inv (init_state MMain)) by (split; reflexivity).
-  rewrite Htk in Hsimple.
-  pose proof (simple_trace ps _ tg 0 Htr Hi0 Hsimple) as Hm.
+  unfold noheredoc in Hfrag. rewrite Htk in Hfrag.
+  pose proof (gen_trace_of ps _ tg 0 Htr Inv_init (or_introl eq_refl) Hfrag) as Hg.
+  destruct (gen_trace_eone _ _ Hg) as [Heone Hneof].
   unfold hazard_free in Hhz. rewrite <- (tyb_wt g _ 0) in Hhz.
-  rewrite Htk in *. rewrite (wt_ttoks g ps tg 0 Hm) in *. unfold wt_steps in *.
+  rewrite Htk in *. rewrite (wt_ttoks_eone g ps tg 0 Heone) in *. unfold wt_steps in *.
   set (body0 := map (wt_step g) ps) in *. set (e := wt_eof g tg) in *.
   assert (Hnoeof : forallb (fun t => negb (is (ty t) TokenEOF)) body0 = true).
-  { subst body0. clear -Hm. induction ps as [|p r IH]; [reflexivity|]. cbn [main_trace] in Hm.
-    destruct Hm as (_ & _ & Hne & _ & Hm). cbn [map forallb]. rewrite (IH Hm), andb_true_r.
+  { subst body0. clear -Hneof. induction Hneof as [|p r Hne _ IH]; [reflexivity|]. cbn [map forallb]. rewrite IH, andb_true_r.
     unfold wt_step, is. cbn [ty]. apply negb_true_iff. apply Z.eqb_neq. exact Hne. }
   pose proof (split_lines_eof_last body0 [] e Hnoeof eq_refl) as Hse.
   rewrite format_unfold. destruct (split_lines (body0 ++ [e]) []) as [raws o] eqn:Esl.
@@ -2641,66 +3593,105 @@ Proof.
   assert (Hsk : map skel (flatten (pipeline raws)) = map skel body0).
   { unfold pipeline. rewrite msk_format_cells, msk_map_format_spaces, msk_format_indent, flatten_mk_line, Hcat.
     reflexivity. }
-  apply (layout_flat e eq_refl (zlen_nonneg tg) _ nil_tok Hfine).
-  - eapply Forall_shape_sk; [exact Hsk|]. subst body0. eapply shapes_trace; eassumption.
+  pose proof (skel_tys g ps _ Hsk) as Htys.
+  apply (layout_flat e eq_refl eq_refl (zlen_nonneg tg) _ nil_tok Hfine).
+  - eapply Forall_gshape_sk; [exact Hsk|]. subst body0. eapply shapes_trace; eassumption.
   - left. reflexivity.
   - rewrite (tyb_of_skel _ _ Hsk). rewrite map_app in Hhz. eapply hz_init. exact Hhz.
-  - exact Hfirst.
+  - destruct (flatten (pipeline raws)) as [|x f] eqn:Ef; [exact I|].
+    split; [exact Hfirst|]. destruct ps as [|p r]; [discriminate Htys|].
+    cbn [map] in Htys. injection Htys as Hx Hf.
+    split.
+    + (* the scanner starts in main mode: the first token is not a string-scanner token *)
+      intro Et. exfalso. cbn [gen_trace] in Hg. destruct Hg as (_ & _ & _ & _ & _ & Hm & _).
+      rewrite <- Hx, Et in Hm. cbn in Hm. discriminate Hm.
+    + unfold tlchain. rewrite Hx, Hf. eapply tlchain_trace. exact Hg.
 Qed.
 
-(* ==== 6. corollaries, refutations ============================================= *)
+(* ==== 7. the theorems; refutations ============================================= *)
 
-(* (A) same tokens, main-scanner fragment *)
-Theorem relex_stable_main g data ks :
-  lex_main data = Some ks -> simple ks = true ->
-  layout_okb (format (writer_tokens g 0 ks)) = true ->
-  exists ks', relex (format (writer_tokens g 0 ks)) = Some ks' /\ map rtyb ks' = map rtyb ks.
+Lemma simple_noheredoc ks : simple ks = true -> noheredoc ks = true.
 Proof.
-  intros H1 H2 H3. destruct (relex_exact_main g data ks H1 H2 H3) as (ks' & Hr & Hw).
-  exists ks'. split; [exact Hr|].
-  rewrite <- (tyb_wt g ks' 0), Hw, <- (tyb_wt g ks 0).
+  unfold simple, noheredoc. rewrite !forallb_forall. intros H k Hk. specialize (H k Hk).
+  apply simple_ty_inv in H. destruct H as (H1 & H2 & _). unfold nohd_ty. rewrite H1.
+  apply Z.eqb_neq in H2. rewrite H2. reflexivity.
+Qed.
+
+(* ---- sources without heredocs (quoted templates with ${..} / %{..} included) ----------------- *)
+
+(* (A+) the formatter's output lexes back to exactly the formatted writer tokens *)
+Theorem relex_exact_quoted g data ks :
+  lex_main data = Some ks -> noheredoc ks = true -> hazard_free ks = true ->
+  exists ks', relex (format (writer_tokens g 0 ks)) = Some ks' /\
+              writer_tokens g 0 ks' = format (writer_tokens g 0 ks).
+Proof.
+  intros H1 H2 H3. apply (relex_exact_nohd g data ks H1 H2). apply (layout_of_format_nohd g data ks H1 H2 H3).
+Qed.
+
+Lemma stable_of_exact g ks ks' :
+  writer_tokens g 0 ks' = format (writer_tokens g 0 ks) -> map rtyb ks' = map rtyb ks.
+Proof.
+  intro Hw. rewrite <- (tyb_wt g ks' 0), Hw, <- (tyb_wt g ks 0).
   apply tyb_of_skel. apply format_only_spaces.
 Qed.
 
-(* (B) Format(Format(src)) = Format(src) on bytes, main-scanner fragment *)
-Theorem bytes_idempotent_main g data ks out :
-  lex_main data = Some ks -> simple ks = true ->
-  layout_okb (format (writer_tokens g 0 ks)) = true ->
+(* (A) ... hence to the same token types and bytes as the source *)
+Theorem relex_stable_quoted g data ks :
+  lex_main data = Some ks -> noheredoc ks = true -> hazard_free ks = true ->
+  exists ks', relex (format (writer_tokens g 0 ks)) = Some ks' /\ map rtyb ks' = map rtyb ks.
+Proof.
+  intros H1 H2 H3. destruct (relex_exact_quoted g data ks H1 H2 H3) as (ks' & Hr & Hw).
+  exists ks'. split; [exact Hr|]. eapply stable_of_exact; exact Hw.
+Qed.
+
+Lemma idempotent_of_exact g data ks out :
+  lex_main data = Some ks ->
+  (exists ks', relex (format (writer_tokens g 0 ks)) = Some ks' /\
+               writer_tokens g 0 ks' = format (writer_tokens g 0 ks)) ->
   format_bytes g data = Some out -> format_bytes g out = Some out.
 Proof.
-  intros H1 H2 H3 Hf. unfold format_bytes in Hf. rewrite H1 in Hf. inversion Hf; subst out. clear Hf.
-  destruct (relex_exact_main g data ks H1 H2 H3) as (ks' & Hr & Hw).
+  intros H1 (ks' & Hr & Hw) Hf. unfold format_bytes in Hf. rewrite H1 in Hf. inversion Hf; subst out. clear Hf.
   unfold format_bytes. unfold relex in Hr. rewrite Hr, Hw, format_idempotent. reflexivity.
 Qed.
 
-(* ---- the fragment of main-scanner tokens, unconditionally ------------------------------------- *)
+(* (B) ... and formatting the formatted bytes again returns them unchanged *)
+Theorem bytes_idempotent_quoted g data ks out :
+  lex_main data = Some ks -> noheredoc ks = true -> hazard_free ks = true ->
+  format_bytes g data = Some out -> format_bytes g out = Some out.
+Proof.
+  intros H1 H2 H3. apply (idempotent_of_exact g data ks out H1). apply (relex_exact_quoted g data ks H1 H2 H3).
+Qed.
 
-(* (A+) every source made of main-scanner tokens (no quoted or heredoc templates)
-   that contains none of the hazard patterns: the formatter's output lexes back
-   to exactly the formatted writer tokens *)
+(* the same from the decidable layout condition alone (hazard patterns allowed) *)
+Theorem relex_exact_main g data ks :
+  lex_main data = Some ks -> simple ks = true ->
+  layout_okb (format (writer_tokens g 0 ks)) = true ->
+  exists ks', relex (format (writer_tokens g 0 ks)) = Some ks' /\
+              writer_tokens g 0 ks' = format (writer_tokens g 0 ks).
+Proof. intros H1 H2 H3. apply (relex_exact_nohd g data ks H1 (simple_noheredoc ks H2) H3). Qed.
+
+(* ---- the fragment of main-scanner tokens (corollaries) ------------------------------------------ *)
+
+Theorem layout_of_format g data ks :
+  lex_main data = Some ks -> simple ks = true -> hazard_free ks = true ->
+  layout_okb (format (writer_tokens g 0 ks)) = true.
+Proof. intros H1 H2 H3. apply (layout_of_format_nohd g data ks H1 (simple_noheredoc ks H2) H3). Qed.
+
 Theorem relex_exact_simple g data ks :
   lex_main data = Some ks -> simple ks = true -> hazard_free ks = true ->
   exists ks', relex (format (writer_tokens g 0 ks)) = Some ks' /\
               writer_tokens g 0 ks' = format (writer_tokens g 0 ks).
-Proof.
-  intros H1 H2 H3. apply (relex_exact_main g data ks H1 H2). apply (layout_of_format g data ks H1 H2 H3).
-Qed.
+Proof. intros H1 H2 H3. apply (relex_exact_quoted g data ks H1 (simple_noheredoc ks H2) H3). Qed.
 
-(* (A) ... hence to the same token types and bytes as the source *)
 Theorem relex_stable_simple g data ks :
   lex_main data = Some ks -> simple ks = true -> hazard_free ks = true ->
   exists ks', relex (format (writer_tokens g 0 ks)) = Some ks' /\ map rtyb ks' = map rtyb ks.
-Proof.
-  intros H1 H2 H3. apply (relex_stable_main g data ks H1 H2). apply (layout_of_format g data ks H1 H2 H3).
-Qed.
+Proof. intros H1 H2 H3. apply (relex_stable_quoted g data ks H1 (simple_noheredoc ks H2) H3). Qed.
 
-(* (B) ... and formatting the formatted bytes again returns them unchanged *)
 Theorem bytes_idempotent_simple g data ks out :
   lex_main data = Some ks -> simple ks = true -> hazard_free ks = true ->
   format_bytes g data = Some out -> format_bytes g out = Some out.
-Proof.
-  intros H1 H2 H3. apply (bytes_idempotent_main g data ks out H1 H2). apply (layout_of_format g data ks H1 H2 H3).
-Qed.
+Proof. intros H1 H2 H3. apply (bytes_idempotent_quoted g data ks out H1 (simple_noheredoc ks H2) H3). Qed.
 
 (* ---- refutations of the statement without the hazard conditions -------------------- *)
 
